@@ -160,8 +160,7 @@ def check_header(r, fn, fns):
             r.bad(d, 'unrecognised decorator %s' % src_of(d))
     if fn.name in getattr(fns, 'rebound', {}):
         r.bad(fn, 'the module binds the name %s again at top level (line %s)' % (fn.name, fns.rebound[fn.name]))
-    if fn.returns is not None or any(a.annotation is not None for a in fn.args.args):
-        pass    # annotations have no run-time effect
+    name_check(r, fn, r.file)
 
 
 def defaults_of(fn):
@@ -172,6 +171,447 @@ def defaults_of(fn):
 
 def lean_defaults(ds):
     return lst('(%s, %s)' % (q(k), q(v)) for k, v in ds)
+
+
+# ====================================================================== name resolution (imports -> definitions)
+#
+# The statement mappings below read `np.sum(...)`, `binarize(...)`, `degrees_und(...)`, `range(...)` by NAME.  What a name
+# denotes is decided here, from the module's own binding statements: every global name a routine uses is resolved to its
+# definition (through `from m import x`, package `__init__` star imports, …) and emitted into the IR (`origins`), where
+# the Lean check compares it with the expected origin.  Anything that is not understood — a name bound twice at module
+# level, a renaming import, a binding by an assignment / `global` statement, a function-local rebinding or a parameter
+# of that name, an attribute store on the numpy module anywhere in the package — is reported as a problem.
+
+import builtins as _builtins
+
+
+class ResolveError(Exception):
+    pass
+
+
+def rel(path):
+    return os.path.relpath(path, common.REPO).replace(os.sep, '/')
+
+
+class Scope:
+    """module-level bindings of one source file"""
+
+    def __init__(self, path):
+        self.path = path
+        self.tree = ast.parse(open(path).read())
+        self.explicit = {}      # name -> [(kind, line, data)]   kind in def class import from other global
+        self.stars = []         # (line, level, module)
+        self.all = None
+        for st in self.tree.body:
+            self._top(st)
+        for nd in ast.walk(self.tree):
+            if isinstance(nd, ast.Global):
+                for nm in nd.names:
+                    self._add(nm, 'global', nd.lineno, None)
+
+    def _add(self, name, kind, line, data):
+        self.explicit.setdefault(name, []).append((kind, line, data))
+
+    def _top(self, st):
+        if isinstance(st, (ast.FunctionDef, ast.AsyncFunctionDef)):
+            self._add(st.name, 'def', st.lineno, st)
+        elif isinstance(st, ast.ClassDef):
+            self._add(st.name, 'class', st.lineno, st)
+        elif isinstance(st, ast.Import):
+            for a in st.names:
+                if a.asname:
+                    self._add(a.asname, 'import', st.lineno, a.name)
+                else:
+                    self._add(a.name.split('.')[0], 'import', st.lineno, a.name.split('.')[0])
+        elif isinstance(st, ast.ImportFrom):
+            if st.module == '__future__':
+                return
+            for a in st.names:
+                if a.name == '*':
+                    self.stars.append((st.lineno, st.level, st.module))
+                else:
+                    self._add(a.asname or a.name, 'from', st.lineno, (st.level, st.module, a.name))
+        else:
+            if (isinstance(st, ast.Assign) and len(st.targets) == 1 and isinstance(st.targets[0], ast.Name)
+                    and st.targets[0].id == '__all__' and isinstance(st.value, (ast.List, ast.Tuple))
+                    and all(isinstance(e, ast.Constant) and isinstance(e.value, str) for e in st.value.elts)):
+                self.all = [e.value for e in st.value.elts]
+            for nd in ast.walk(st):
+                if isinstance(nd, ast.Name) and isinstance(nd.ctx, (ast.Store, ast.Del)):
+                    self._add(nd.id, 'other', st.lineno, src_of(st, 50))
+                elif isinstance(nd, (ast.FunctionDef, ast.AsyncFunctionDef, ast.ClassDef)):
+                    self._add(nd.name, 'other', st.lineno, src_of(st, 50))
+                elif isinstance(nd, (ast.Import, ast.ImportFrom)):
+                    for a in nd.names:
+                        self._add((a.asname or a.name).split('.')[0], 'other', st.lineno, src_of(st, 50))
+
+
+_SCOPES = {}
+
+
+def scope_of(path):
+    if path not in _SCOPES:
+        _SCOPES[path] = Scope(path)
+    return _SCOPES[path]
+
+
+def target_path(cur, level, module):
+    """file of the module named by an import statement of `cur`; None for a module outside the bct package"""
+    if level == 0:
+        parts = (module or '').split('.')
+        if parts[0] != 'bct':
+            return None
+        base = os.path.join(common.REPO, *parts)
+    else:
+        d = os.path.dirname(cur)
+        for _ in range(level - 1):
+            d = os.path.dirname(d)
+        base = os.path.join(d, *(module.split('.') if module else []))
+    if os.path.isfile(base + '.py'):
+        return base + '.py'
+    if os.path.isfile(os.path.join(base, '__init__.py')):
+        return os.path.join(base, '__init__.py')
+    raise ResolveError('cannot locate the module of `from %s%s import …` in %s' % ('.' * level, module or '', rel(cur)))
+
+
+def exports(path, seen=()):
+    """names a `from <path> import *` binds"""
+    sc = scope_of(path)
+    if sc.all is not None:
+        return set(sc.all)
+    out = {n for n in sc.explicit if not n.startswith('_')}
+    for line, level, module in sc.stars:
+        tp = target_path(path, level, module)
+        if tp is None:
+            raise ResolveError('%s:%d: star import from %s (outside the package) may bind any name' % (rel(path), line, module))
+        if tp not in seen:
+            out |= {n for n in exports(tp, seen + (path,)) if not n.startswith('_')}
+    return out
+
+
+def resolve(path, name, seen=()):
+    """-> ('def'|'class', relfile, name, node) | ('module', modname) | ('external', modname, name) | ('builtin',)"""
+    key = (path, name)
+    if key in seen or len(seen) > 12:
+        raise ResolveError('import cycle while resolving %s' % name)
+    try:
+        sc = scope_of(path)
+    except (OSError, SyntaxError) as e:
+        raise ResolveError('%s: %s' % (rel(path), e))
+    ex = sc.explicit.get(name, [])
+    if len(ex) > 1:
+        raise ResolveError('%s binds the name %s %d times at module level (lines %s)' % (
+            rel(path), name, len(ex), ', '.join('%d: %s' % (l, k) for k, l, _ in ex)))
+    results = []
+    if ex:
+        kind, line, data = ex[0]
+        if kind in ('def', 'class'):
+            results.append((kind, rel(path), name, data))
+        elif kind == 'import':
+            results.append(('module', data))
+        elif kind == 'from':
+            level, module, orig = data
+            if orig != name:
+                raise ResolveError('%s:%d: renaming import `from %s%s import %s as %s`' % (rel(path), line, '.' * level, module or '', orig, name))
+            tp = target_path(path, level, module)
+            if tp is None:
+                results.append(('external', module, orig))
+            else:
+                tsc = scope_of(tp)
+                if orig in tsc.explicit or orig in exports(tp):
+                    results.append(resolve(tp, orig, seen + (key,)))
+                else:
+                    sub = os.path.join(os.path.dirname(tp), orig)
+                    if os.path.basename(tp) == '__init__.py' and (os.path.isfile(sub + '.py') or os.path.isdir(sub)):
+                        results.append(('module', rel(sub)))
+                    else:
+                        raise ResolveError('%s:%d: %s does not define %s' % (rel(path), line, rel(tp), orig))
+        else:
+            raise ResolveError('%s:%d: the name %s is bound at module level by a statement that is not understood (%s%s)' % (
+                rel(path), line, name, kind, ': ' + data if data else ''))
+    for line, level, module in sc.stars:
+        tp = target_path(path, level, module)
+        if tp is None:
+            raise ResolveError('%s:%d: star import from %s (outside the package) may bind %s' % (rel(path), line, module, name))
+        if name in exports(tp):
+            results.append(resolve(tp, name, seen + (key,)))
+    if not results:
+        if hasattr(_builtins, name):
+            return ('builtin',)
+        raise ResolveError('the name %s is not bound in %s' % (name, rel(path)))
+    if any(x[:3] != results[0][:3] for x in results[1:]):
+        raise ResolveError('%s binds the name %s to different definitions: %s' % (rel(path), name, sorted({origin_str(x) for x in results})))
+    return results[0]
+
+
+def origin_str(res):
+    if res[0] in ('def', 'class'):
+        return '%s %s:%s' % (res[0], res[1], res[2])
+    if res[0] == 'module':
+        return 'module %s' % res[1]
+    if res[0] == 'external':
+        return 'external %s:%s' % (res[1], res[2])
+    return 'builtin'
+
+
+def shallow_origin(path, name):
+    """one hop only (names that occur in the citation decorator): exactly one `from m import name`, no renaming"""
+    sc = scope_of(path)
+    ex = sc.explicit.get(name, [])
+    for line, level, module in sc.stars:
+        tp = target_path(path, level, module)
+        if tp is None or name in exports(tp):
+            raise ResolveError('%s: the name %s may also be bound by the star import at line %d' % (rel(path), name, line))
+    if len(ex) != 1 or ex[0][0] != 'from':
+        raise ResolveError('%s: the decorator name %s is not bound by exactly one `from … import %s` (%s)' % (
+            rel(path), name, name, ', '.join('%d: %s' % (l, k) for k, l, _ in ex) or 'unbound'))
+    kind, line, (level, module, orig) = ex[0]
+    if orig != name:
+        raise ResolveError('%s:%d: renaming import of %s as %s' % (rel(path), line, orig, name))
+    tp = target_path(path, level, module)
+    return 'from %s:%s' % (rel(tp) if tp else module, orig)
+
+
+def local_names(fn):
+    """{name: line} of every name the function binds itself: parameters, assignment / loop / with / except / comprehension
+    targets, nested definitions, local imports, `global` / `nonlocal` declarations"""
+    out = {}
+    a = fn.args
+    for x in list(getattr(a, 'posonlyargs', [])) + a.args + a.kwonlyargs + [y for y in (a.vararg, a.kwarg) if y]:
+        out.setdefault(x.arg, fn.lineno)
+    for nd in ast.walk(fn):
+        if nd is fn:
+            continue
+        if isinstance(nd, ast.Name) and isinstance(nd.ctx, (ast.Store, ast.Del)):
+            out.setdefault(nd.id, nd.lineno)
+        elif isinstance(nd, (ast.FunctionDef, ast.AsyncFunctionDef, ast.ClassDef)):
+            out.setdefault(nd.name, nd.lineno)
+        elif isinstance(nd, (ast.Import, ast.ImportFrom)):
+            for al in nd.names:
+                out.setdefault((al.asname or al.name).split('.')[0], nd.lineno)
+        elif isinstance(nd, (ast.Global, ast.Nonlocal)):
+            for nm in nd.names:
+                out.setdefault(nm, nd.lineno)
+        elif isinstance(nd, ast.ExceptHandler) and nd.name:
+            out.setdefault(nd.name, nd.lineno)
+        elif isinstance(nd, ast.arg):
+            out.setdefault(nd.arg, nd.lineno)          # parameters of nested functions / lambdas
+    return out
+
+
+# what the statement mappings assume about the global names they read (the authoritative comparison is the Lean check of
+# the emitted `origins`; this table only turns a deviation into a `problems` entry as well)
+EXPECT_ORIGIN = {
+    'np': 'module numpy',
+    'range': 'builtin', 'len': 'builtin', 'int': 'builtin', 'max': 'builtin', 'float': 'builtin', 'bool': 'builtin',
+    'isinstance': 'builtin', 'ValueError': 'builtin', 'random': 'module random',
+    'binarize': 'def bct/utils/other.py:binarize', 'normalize': 'def bct/utils/other.py:normalize',
+    'invert': 'def bct/utils/other.py:invert', 'NotImplementedError': 'builtin',
+    'get_rng': 'def bct/utils/miscellaneous_utilities.py:get_rng',
+    'pick_four_unique_nodes_quickly': 'def bct/utils/miscellaneous_utilities.py:pick_four_unique_nodes_quickly',
+    'BCTParamError': 'class bct/utils/miscellaneous_utilities.py:BCTParamError',
+    'degrees_und': 'def bct/algorithms/degree.py:degrees_und', 'degrees_dir': 'def bct/algorithms/degree.py:degrees_dir',
+    'strengths_und': 'def bct/algorithms/degree.py:strengths_und',
+    'breadth': 'def bct/algorithms/distance.py:breadth',
+    'kcore_bu': 'def bct/algorithms/core.py:kcore_bu', 'kcore_bd': 'def bct/algorithms/core.py:kcore_bd',
+    'due': 'from bct/due.py:due', 'BibTeX': 'from bct/due.py:BibTeX',
+}
+
+
+def numpy_patch_scan():
+    """attribute stores on the numpy module anywhere in the package (`np.min = …`, `np.random.seed = …`, `setattr(np, …)`,
+    `del np.x`): ['file:line: text'].  Such a store changes what `np.<name>` means for every routine."""
+    out = []
+    base = os.path.join(common.REPO, 'bct')
+    for d, _, files in sorted(os.walk(base)):
+        for f in sorted(files):
+            if not f.endswith('.py'):
+                continue
+            p = os.path.join(d, f)
+            try:
+                tree = ast.parse(open(p).read())
+            except (OSError, SyntaxError) as e:
+                out.append('%s: cannot be parsed (%s)' % (rel(p), type(e).__name__))
+                continue
+            aliases = set()
+            for nd in ast.walk(tree):
+                if isinstance(nd, ast.Import):
+                    for a in nd.names:
+                        if a.name.split('.')[0] == 'numpy':
+                            aliases.add(a.asname or 'numpy')
+                elif isinstance(nd, ast.ImportFrom) and nd.module and nd.module.split('.')[0] == 'numpy' and nd.level == 0:
+                    for a in nd.names:
+                        if a.name != '*':
+                            aliases.add(a.asname or a.name)
+
+            def root(x):
+                while isinstance(x, (ast.Attribute, ast.Subscript)):
+                    x = x.value
+                return x.id if isinstance(x, ast.Name) else None
+            for nd in ast.walk(tree):
+                tg = []
+                if isinstance(nd, ast.Assign):
+                    tg = nd.targets
+                elif isinstance(nd, (ast.AugAssign, ast.AnnAssign)):
+                    tg = [nd.target]
+                elif isinstance(nd, ast.Delete):
+                    tg = nd.targets
+                elif isinstance(nd, (ast.For, ast.AsyncFor)):
+                    tg = [nd.target]
+                elif isinstance(nd, (ast.With, ast.AsyncWith)):
+                    tg = [i.optional_vars for i in nd.items if i.optional_vars is not None]
+                flat = []
+                for t in tg:
+                    flat += list(ast.walk(t))
+                for t in flat:
+                    if isinstance(t, ast.Attribute) and isinstance(t.ctx, (ast.Store, ast.Del)) and root(t) in aliases:
+                        out.append('%s:%d: %s' % (rel(p), nd.lineno, src_of(nd, 60)))
+                if (isinstance(nd, ast.Call) and isinstance(nd.func, ast.Name) and nd.func.id in ('setattr', 'delattr') and nd.args
+                        and root(nd.args[0]) in aliases):
+                    out.append('%s:%d: %s' % (rel(p), nd.lineno, src_of(nd, 60)))
+    return sorted(set(out))
+
+
+_NP_SCAN = {}
+
+
+def name_check(r, fn, path):
+    """resolve every global name of the routine; sets r.origins (sorted [(name, origin)]), reports what is not understood"""
+    r.origins = []
+    loc = local_names(fn)
+    deco = {nd.id for d in fn.decorator_list for nd in ast.walk(d) if isinstance(nd, ast.Name)}
+    body_loads = {}
+    for st in fn.body:
+        for nd in ast.walk(st):
+            if isinstance(nd, ast.Name) and isinstance(nd.ctx, ast.Load):
+                body_loads.setdefault(nd.id, nd.lineno)
+    for a in fn.args.defaults + [d for d in fn.args.kw_defaults if d is not None]:
+        for nd in ast.walk(a):
+            if isinstance(nd, ast.Name):
+                body_loads.setdefault(nd.id, nd.lineno)
+    # a name the mappings read as a global must not be rebound inside the function (or be a parameter)
+    for nm in sorted(set(EXPECT_ORIGIN) & set(loc)):
+        if nm in body_loads or nm in deco:
+            r.bad(fn, 'the name %s is bound inside %s (line %d): it does not denote %s there' % (nm, fn.name, loc[nm], EXPECT_ORIGIN[nm]))
+    free = sorted((set(body_loads) - set(loc)) | deco)
+    for nm in free:
+        try:
+            if nm in deco and nm not in body_loads:
+                o = shallow_origin(path, nm)
+            else:
+                o = origin_str(resolve(path, nm))
+        except ResolveError as e:
+            r.bad(fn, 'cannot resolve the name %s: %s' % (nm, e))
+            o = 'unresolved'
+        except (OSError, SyntaxError) as e:
+            r.bad(fn, 'cannot resolve the name %s: %s' % (nm, e))
+            o = 'unresolved'
+        r.origins.append((nm, o))
+        exp = EXPECT_ORIGIN.get(nm)
+        if exp is None and nm in deco and nm not in body_loads and o.startswith('from bct/citations.py:'):
+            exp = o
+        if o != 'unresolved' and o != exp:
+            r.bad(fn, 'the name %s resolves to `%s`%s' % (nm, o, ', expected `%s`' % exp if exp else ', which the mapping tables do not know'))
+    # the definition that callers get under the routine's own name is the one extracted
+    try:
+        me = resolve(path, fn.name)
+        if me[0] != 'def' or me[3].lineno != fn.lineno:
+            r.bad(fn, 'the name %s denotes `%s`, not the definition at line %d' % (fn.name, origin_str(me), fn.lineno))
+    except ResolveError as e:
+        r.bad(fn, 'cannot resolve the name %s: %s' % (fn.name, e))
+    if 'np' in dict(r.origins):
+        if 'scan' not in _NP_SCAN:
+            _NP_SCAN['scan'] = numpy_patch_scan()
+        for x in _NP_SCAN['scan']:
+            r.bad(fn, 'the package stores into an attribute of the numpy module (%s): `np.<name>` is not understood' % x)
+
+
+def lean_origins(r):
+    return lst('(%s, %s)' % (q(k), q(v)) for k, v in getattr(r, 'origins', []))
+
+
+def resolved_def(path, name):
+    """(file, FunctionDef) of the definition `name` denotes in the module `path`, or raises ResolveError"""
+    res = resolve(path, name)
+    if res[0] != 'def':
+        raise ResolveError('%s denotes `%s`, not a function definition' % (name, origin_str(res)))
+    return os.path.join(common.REPO, res[1]), res[3]
+
+
+# ====================================================================== primitives of an IR that are bct functions
+
+def fold_util_primitive(using_path, name):
+    """A bct utility that an IR treats as a primitive (`binarize(·, copy=True)` in the peel / comp IRs): resolve the name
+    as the using module sees it and extract the definition with the util-family mapping, so that the generated file of
+    the *using* family carries the primitive's own obligation.  -> Routine"""
+    try:
+        dpath, node = resolved_def(using_path, name)
+    except ResolveError as e:
+        r = Routine(name, using_path)
+        r.problems.append('%s: %s: cannot resolve the called function %s: %s' % (name, os.path.basename(using_path), name, e))
+        return r
+    try:
+        r = extract_util(node, dpath, True)
+        check_header(r, node, None)
+    except Exception as e:  # noqa — an extractor crash must not look like success
+        r = Routine(name, dpath); r.problems.append('%s: extractor raised %s: %s' % (name, type(e).__name__, e))
+    return r
+
+
+def lean_folded_primitive(r, users):
+    """Lean text for fold_util_primitive (only `binarize` is folded today)"""
+    f = r.fields or {'params': '[]', 'defaults': '[]', 'body': '[]'}
+    a, b = r.parts.get('body', (r.line, r.line))
+    out = []
+    for p in r.problems:
+        out.append('-- NOT RECOGNISED: ' + p.replace('\n', ' '))
+    out.append('/-- `%s` as called by %s, resolved to its definition (%s:%d); a primitive of this IR, tied here with the util-family IR -/' % (
+        r.name, users, os.path.basename(r.file), r.line))
+    out.append('def prim_%s : Bct.CoreIR.Util.FnIR :=\n  { name := %s, recognised := %s, params := %s, defaults := %s,\n    body :=\n     %s }\n' % (
+        r.name, q(r.name), 'true' if not r.problems else 'false', f['params'], f['defaults'] + ', origins := ' + lean_origins(r), f['body']))
+    out.append('theorem prim_%s_ok : Bct.CoreIR.Util.utilOk prim_%s = true := by\n  first | decide | fail "prim_%s_ok: %s, called by %s, '
+               '(%s:%d-%d) %s"\n' % (r.name, r.name, r.name, r.name, users, os.path.basename(r.file), a, b,
+                                     'was not resolved / recognised by translate/cores.py' if r.problems else 'is not the expected program'))
+    if r.name == 'binarize':
+        out.append('theorem prim_binarize_computes {n : Nat} (o : Bct.CoreIR.Util.Oracles) (W : AMat Rat n) (c : Bool) (ds : List Nat) :\n'
+                   '    Bct.CoreIR.Util.runFn o prim_binarize [.mat (Bct.Cores.Util.embQ W), .sc (.bool c)] ds = .mat (Bct.Cores.Util.embQ (Bct.Thresh.binarize W)) :=\n'
+                   '  Bct.Cores.Util.link_binarize o _ prim_binarize_ok rfl W c ds\n')
+    return out
+
+
+def fingerprint_primitive(using_path, name):
+    """A bct function that an IR gives a fixed meaning without interpreting it (`get_rng`): resolve the name and take the
+    normalised source of the definition as data (compared with the recognised normal form in Lean).  -> Routine"""
+    try:
+        dpath, node = resolved_def(using_path, name)
+    except ResolveError as e:
+        r = Routine(name, using_path)
+        r.problems.append('%s: %s: cannot resolve the called function %s: %s' % (name, os.path.basename(using_path), name, e))
+        r.fields = {'origin': 'unresolved', 'params': '', 'src': ''}
+        return r
+    r = Routine(name, dpath)
+    r.line = node.lineno
+    r.parts = {'body': lines_of(body_wo_doc(node))}
+    for d in node.decorator_list:
+        r.bad(d, 'unrecognised decorator %s' % src_of(d))
+    name_check(r, node, dpath)
+    r.fields = {'origin': 'def %s:%s' % (rel(dpath), name), 'params': ast.unparse(node.args),
+                'src': '\n'.join(ast.unparse(st) for st in body_wo_doc(node))}
+    return r
+
+
+def lean_fingerprint(r, users):
+    f = r.fields
+    a, b = r.parts.get('body', (r.line, r.line))
+    out = []
+    for p in r.problems:
+        out.append('-- NOT RECOGNISED: ' + p.replace('\n', ' '))
+    out.append('/-- `%s` as called by %s, resolved to its definition (%s:%d): normalised source -/' % (r.name, users, os.path.basename(r.file), r.line))
+    out.append('def prim_%s : Prim :=\n  { name := %s, origin := %s, params := %s,\n    src := %s,\n    origins := %s }\n' % (
+        r.name, q(r.name), q(f['origin']), q(f['params']), '[' + ',\n            '.join(q(x) for x in f['src'].split('\n')) + ']' if f['src'] else '[]', lean_origins(r)))
+    out.append('theorem prim_%s_ok : primOk prim_%s = true := by\n  first | decide | fail "prim_%s_ok: the definition of %s that %s calls '
+               '(%s:%d-%d) is not the recognised one"\n' % (r.name, r.name, r.name, r.name, users, os.path.basename(r.file), a, b))
+    return out
 
 
 # ====================================================================== family 'floyd'
@@ -414,7 +854,8 @@ def lean_floyd(r, src_path):
     out.append('/-- `distance_wei_floyd` (%s:%d) -/' % (rel, r.line))
     out.append('def ir_distance_wei_floyd : FloydIR :=\n  { recognised := %s,\n    param := %s, trParam := %s, defaults := %s,\n    dispatch :=\n     %s,\n'
                '    init :=\n     %s,\n    loopVar := %s, loopBound := %s,\n    body :=\n     %s,\n    epilogue :=\n     %s,\n    ret := %s }\n' % (
-                   'true' if not r.problems else 'false', f['param'], f['trParam'], f['defaults'], f['dispatch'], f['init'], f['loopVar'],
+                   'true' if not r.problems else 'false', f['param'], f['trParam'], f['defaults'] + ', origins := ' + lean_origins(r),
+                   f['dispatch'], f['init'], f['loopVar'],
                    f['loopBound'], f['body'], f['epilogue'], f['ret']))
     parts = [('dispatch', '(ir_distance_wei_floyd.dispatch == refDispatch)', 'the transform dispatch / the SPL[SPL == 0] = inf initialisation'),
              ('init', '(ir_distance_wei_floyd.init == refInit)', 'the initialisation of n / hops / Pmat'),
@@ -825,8 +1266,9 @@ def extract_coreness(fn, path):
     return r
 
 
-def lean_peel(hs, ps, cs, paths):
+def lean_peel(hs, ps, cs, paths, prim):
     out = ['import BctVerif.Props.CoresPeel',
+           'import BctVerif.Props.CoresUtil',
            '/-!',
            '# GENERATED by translate/cores.py (family peel) — do not edit.  Re-emitted from the current source on every check run.',
            'sources: %s' % ', '.join(paths),
@@ -854,9 +1296,10 @@ def lean_peel(hs, ps, cs, paths):
         notes(r)
         out.append('/-- `%s` (%s:%d) -/' % (r.name, os.path.basename(r.file), r.line))
         out.append('def h_%s : Helper :=\n  { name := %s, recognised := %s, param := %s,\n    body := %s,\n    ret := %s }\n' % (
-            r.name, q(r.name), 'true' if not r.problems else 'false', f['param'], f['body'], f['ret']))
+            r.name, q(r.name), 'true' if not r.problems else 'false', f['param'] + ', origins := ' + lean_origins(r), f['body'], f['ret']))
         out.append('theorem %s_ok : (h_%s == %s) = true := by\n  first | decide | fail "%s_ok: the statements extracted from %s (%s:%d) %s"\n' % (
             r.name, r.name, refname[r.name], r.name, r.name, os.path.basename(r.file), r.line, why(r)))
+    out += lean_folded_primitive(prim, 'degrees_und / degrees_dir')
     out.append('def helpers : List Helper := %s\n' % lst('h_' + r.name for r in hs))
     out.append('theorem helpers_ok : helpersOk helpers = true := by\n  first | decide | fail "helpers_ok: degrees_und / degrees_dir / strengths_und '
                '(%s) are not the expected helper functions"\n' % os.path.basename(hs[0].file))
@@ -866,7 +1309,8 @@ def lean_peel(hs, ps, cs, paths):
         out.append('/-- `%s` (%s:%d) -/' % (r.name, os.path.basename(r.file), r.line))
         out.append('def ir_%s : PeelIR :=\n  { name := %s, recognised := %s, params := %s, defaults := %s,\n    pre := %s,\n    body :=\n     %s,\n    post := %s,\n'
                    '    flag := %s, retFlag := %s, ret := %s }\n' % (
-                       r.name, q(r.name), 'true' if not r.problems else 'false', f['params'], f['defaults'], f['pre'], f['body'], f['post'], f['flag'],
+                       r.name, q(r.name), 'true' if not r.problems else 'false', f['params'], f['defaults'] + ',\n    origins := ' + lean_origins(r),
+                       f['pre'], f['body'], f['post'], f['flag'],
                        f['retFlag'], f['ret']))
         a, b = r.parts.get('body', (r.line, r.line))
         out.append('theorem %s_body_ok : (ir_%s.body == %s.body) = true := by\n  first | decide | fail "%s_body_ok: the `while True` body of %s '
@@ -901,7 +1345,8 @@ def lean_peel(hs, ps, cs, paths):
         out.append('def ir_%s : CorenessIR :=\n  { name := %s, recognised := %s, param := %s,\n    pre :=\n     %s,\n    loopVar := %s, bound := %s,\n'
                    '    core := %s, knArr := %s, knIdx := %s, callee := %s, callArgs := %s,\n    ss := %s, member := %s,\n'
                    '    out := %s, storeIdx := %s, storeVal := %s, ret := %s }\n' % (
-                       r.name, q(r.name), 'true' if not r.problems else 'false', f['param'], f['pre'], f['loopVar'], f['bound'], f['core'],
+                       r.name, q(r.name), 'true' if not r.problems else 'false', f['param'] + ',\n    origins := ' + lean_origins(r),
+                       f['pre'], f['loopVar'], f['bound'], f['core'],
                        f['knArr'], f['knIdx'], f['callee'], f['callArgs'], f['ss'], f['member'], f['out'], f['storeIdx'], f['storeVal'], f['ret']))
         a, b = r.parts.get('body', (r.line, r.line))
         out.append('theorem %s_ok : corenessOk ir_%s = true := by\n  first | decide | fail "%s_ok: the statements extracted from %s (%s:%d; loop bound '
@@ -935,13 +1380,16 @@ def family_peel():
             r = Routine(name, paths[kind]); r.problems.append('%s: extractor raised %s: %s' % (name, type(e).__name__, e))
             return r
     hs = [one('degree', n, extract_helper) for n in HELPERS]
+    prim = fold_util_primitive(paths['degree'], 'binarize')
     ps = [one('core', n, extract_peeler) for n in PEELERS]
     cs = [one('centrality', n, extract_coreness) for n in CORENESS]
     allr = hs + ps + cs
-    return {'module': 'BctVerif.Gen.CoresPeel', 'file': 'CoresPeel.lean', 'text': lean_peel(hs, ps, cs, [paths[k] for k in ('degree', 'core', 'centrality')]),
+    prim.name_in_summary = 'binarize (called by degrees_und / degrees_dir)'
+    return {'module': 'BctVerif.Gen.CoresPeel', 'file': 'CoresPeel.lean', 'text': lean_peel(hs, ps, cs, [paths[k] for k in ('degree', 'core', 'centrality')], prim),
             'sources': [paths[k] for k in ('degree', 'core', 'centrality')],
-            'routines': {r.name: dict(getattr(r, 'counts', {}), line=r.line, recognised=not r.problems) for r in allr},
-            'problems': [p for r in allr for p in r.problems]}
+            'routines': dict({r.name: dict(getattr(r, 'counts', {}), line=r.line, recognised=not r.problems) for r in allr},
+                             **{prim.name_in_summary: dict(line=prim.line, file=rel(prim.file), recognised=not prim.problems)}),
+            'problems': [p for r in allr + [prim] for p in r.problems]}
 
 
 # ====================================================================== family 'util'
@@ -1137,8 +1585,9 @@ UTIL_LINKS = {
 }
 
 
-def lean_util(rs, paths):
+def lean_util(rs, paths, prim, disp, tpr):
     out = ['import BctVerif.Props.CoresUtil',
+           'import BctVerif.Props.CoresTp',
            '/-!',
            '# GENERATED by translate/cores.py (family util) — do not edit.  Re-emitted from the current source on every check run.',
            'sources: %s' % ', '.join(paths),
@@ -1158,14 +1607,232 @@ def lean_util(rs, paths):
         a, b = r.parts.get('body', (r.line, r.line))
         out.append('/-- `%s` (%s:%d) -/' % (r.name, os.path.basename(r.file), r.line))
         out.append('def ir_%s : FnIR :=\n  { name := %s, recognised := %s, params := %s, defaults := %s,\n    body :=\n     %s }\n' % (
-            r.name, q(r.name), 'true' if not r.problems else 'false', f['params'], f['defaults'], f['body']))
+            r.name, q(r.name), 'true' if not r.problems else 'false', f['params'], f['defaults'] + ', origins := ' + lean_origins(r), f['body']))
         out.append('theorem %s_ok : utilOk ir_%s = true := by\n  first | decide | fail "%s_ok: the statements extracted from %s (%s:%d-%d) %s"\n' % (
             r.name, r.name, r.name, r.name, os.path.basename(r.file), a, b,
             'were not all recognised by translate/cores.py' if r.problems else 'are not the expected program'))
         bind, stmt, proof = UTIL_LINKS[r.name]
         out.append('theorem %s_computes %s :\n    %s :=\n  %s\n' % (r.name, bind, stmt, proof))
+    out += lean_fingerprint(prim, 'pick_four_unique_nodes_quickly')
+    out += lean_dispatch(disp)
+    out += lean_tp(tpr)
     out.append('end Bct.Gen.CoresUtil')
     return '\n'.join(out) + '\n'
+
+
+def extract_dispatch(fn, path):
+    """weight_conversion: `if <arg> == '<lit>': return <callee>(<names>)` … `else: raise <Exc>(…)` (Model/CoreIRUtil.lean: DispatchIR)"""
+    r = Routine(fn.name, path)
+    r.line = fn.lineno
+    a = fn.args
+    if a.vararg or a.kwarg or a.kwonlyargs or getattr(a, 'posonlyargs', []):
+        r.bad(fn, 'unexpected parameter kinds')
+    f = {'params': lst(q(x.arg) for x in a.args), 'defaults': lean_defaults(defaults_of(fn)), 'arg': q('?'), 'arms': '[]', 'elseExc': q('?')}
+    r.fields = f
+    body = body_wo_doc(fn)
+    r.parts = {'body': lines_of(body)}
+    if len(body) != 1 or not isinstance(body[0], ast.If):
+        r.bad(fn, 'expected a single `if … elif … else …` statement')
+        return r
+    arms, args_seen, nd = [], set(), body[0]
+    while True:
+        t = nd.test
+        ok = (isinstance(t, ast.Compare) and len(t.ops) == 1 and isinstance(t.ops[0], ast.Eq) and isinstance(t.left, ast.Name)
+              and isinstance(t.comparators[0], ast.Constant) and isinstance(t.comparators[0].value, str)
+              and len(nd.body) == 1 and isinstance(nd.body[0], ast.Return) and isinstance(nd.body[0].value, ast.Call)
+              and isinstance(nd.body[0].value.func, ast.Name) and not nd.body[0].value.keywords
+              and all(isinstance(x, ast.Name) for x in nd.body[0].value.args))
+        if not ok:
+            r.bad(nd, 'unrecognised arm %s' % src_of(nd)); return r
+        args_seen.add(t.left.id)
+        c = nd.body[0].value
+        arms.append('⟨%s, %s, %s⟩' % (q(t.comparators[0].value), q(c.func.id), lst(q(x.id) for x in c.args)))
+        if len(nd.orelse) == 1 and isinstance(nd.orelse[0], ast.If):
+            nd = nd.orelse[0]; continue
+        if (len(nd.orelse) == 1 and isinstance(nd.orelse[0], ast.Raise) and nd.orelse[0].cause is None and isinstance(nd.orelse[0].exc, ast.Call)
+                and isinstance(nd.orelse[0].exc.func, ast.Name)):
+            f['elseExc'] = q(nd.orelse[0].exc.func.id)
+        else:
+            r.bad(nd, 'expected the chain to end with `else: raise <Exception>(…)`')
+        break
+    if len(args_seen) != 1:
+        r.bad(fn, 'the tests compare different names %s' % sorted(args_seen))
+    else:
+        f['arg'] = q(args_seen.pop())
+    f['arms'] = lst(arms)
+    r.counts = {'arms': len(arms)}
+    return r
+
+
+def lean_dispatch(r):
+    f = r.fields or {'params': '[]', 'defaults': '[]', 'arg': q('?'), 'arms': '[]', 'elseExc': q('?')}
+    a, b = r.parts.get('body', (r.line, r.line))
+    out = []
+    for p in r.problems:
+        out.append('-- NOT RECOGNISED: ' + p.replace('\n', ' '))
+    out.append('/-- `%s` (%s:%d) -/' % (r.name, os.path.basename(r.file), r.line))
+    out.append('def ir_%s : DispatchIR :=\n  { name := %s, recognised := %s, params := %s, defaults := %s,\n    origins := %s,\n    arg := %s,\n'
+               '    arms := %s,\n    elseExc := %s }\n' % (r.name, q(r.name), 'true' if not r.problems else 'false', f['params'], f['defaults'],
+                                                        lean_origins(r), f['arg'], f['arms'], f['elseExc']))
+    out.append('theorem %s_ok : dispatchOk ir_%s = true := by\n  first | decide | fail "%s_ok: the statements extracted from %s (%s:%d-%d) %s"\n' % (
+        r.name, r.name, r.name, r.name, os.path.basename(r.file), a, b,
+        'were not all recognised by translate/cores.py' if r.problems else 'are not the expected program'))
+    out.append('theorem weight_conversion_computes {n : Nat} (o : Oracles) (W : AMat Rat n) (wcm : String) (c : Bool) (ds : List Nat) :\n'
+               '    runDispatch o [ir_binarize, ir_normalize, ir_invert] ir_weight_conversion (embQ W) wcm c ds =\n'
+               '      match Bct.Thresh.weightConversion W wcm with\n      | .ok (some R) => .mat (embQ R)\n'
+               '      | .ok none => .mat (AMat.ofFn fun _ _ => SV.nan)\n      | .error e => .raise e :=\n'
+               '  link_weight_conversion o _ weight_conversion_ok ir_binarize ir_normalize ir_invert binarize_ok normalize_ok invert_ok rfl rfl rfl W wcm c ds\n')
+    return out
+
+
+TP_FIELDS = ('impAlias impOrigin guard exc copyFlag copyMat dim dimOf diagMat diagVal symA symB trilMat trilDim trilVal udVar udThen udElse '
+             'indVar indOf ordVar ordMat ordInd enVar enCallee enArg cutMat cutInd0 cutOrd0 cutEn0 cutInd1 cutOrd1 cutEn1 cutVal '
+             'symVar symLit symMat symL symR ret').split()
+TP_RAW = {'guard': '(.lit 0 1)', 'enArg': '(.lit 0 1)', 'diagVal': '0', 'trilVal': '0', 'udThen': '0', 'udElse': '0', 'cutVal': '0', 'symLit': '0'}
+
+
+def extract_tp(fn, path):
+    """threshold_proportional: twelve statements matched positionally (Model/CoreIRTp.lean: TpIR)"""
+    r = Routine(fn.name, path)
+    r.line = fn.lineno
+    a = fn.args
+    if a.vararg or a.kwarg or a.kwonlyargs or getattr(a, 'posonlyargs', []):
+        r.bad(fn, 'unexpected parameter kinds')
+    f = {}
+    r.fields = f
+    r.params = lst(q(x.arg) for x in a.args)
+    r.defaults = lean_defaults(defaults_of(fn))
+    body = body_wo_doc(fn)
+    r.parts = {'body': lines_of(body)}
+    if len(body) != 12:
+        r.bad(fn, 'expected exactly 12 statements, found %d' % len(body))
+        return r
+    x = UtilX(r, fn.name, [y.arg for y in a.args], a.args[0].arg if a.args else None)
+
+    def sub3(node):
+        """ind[k][I][en:] -> (ind, k, I, en)"""
+        if (isinstance(node, ast.Subscript) and isinstance(node.slice, ast.Slice) and isinstance(node.slice.lower, ast.Name)
+                and node.slice.upper is None and node.slice.step is None and isinstance(node.value, ast.Subscript)
+                and isinstance(node.value.slice, ast.Name) and isinstance(node.value.value, ast.Subscript)
+                and isinstance(node.value.value.value, ast.Name) and const_nat(node.value.value.slice) is not None):
+            return node.value.value.value.id, const_nat(node.value.value.slice), node.value.slice.id, node.slice.lower.id
+        return None
+
+    def full2(sl):
+        return isinstance(sl, ast.Tuple) and len(sl.elts) == 2 and all(full_slice(e) for e in sl.elts)
+    try:
+        s0, s1, s2, s3, s4, s5, s6, s7, s8, s9, s10, s11 = body
+        if not (isinstance(s0, ast.ImportFrom) and len(s0.names) == 1 and s0.names[0].name != '*'):
+            raise Unrec(s0, 'expected the local import of the rounding function')
+        al = s0.names[0]
+        f['impAlias'] = al.asname or al.name
+        try:
+            tp_ = target_path(path, s0.level, s0.module)
+            f['impOrigin'] = origin_str(resolve(tp_, al.name)) if tp_ else 'external %s:%s' % (s0.module, al.name)
+        except ResolveError as e:
+            r.bad(s0, 'cannot resolve the local import: %s' % e); f['impOrigin'] = 'unresolved'
+        if not (isinstance(s1, ast.If) and not s1.orelse and len(s1.body) == 1 and isinstance(s1.body[0], ast.Raise) and s1.body[0].cause is None
+                and isinstance(s1.body[0].exc, ast.Call) and isinstance(s1.body[0].exc.func, ast.Name)):
+            raise Unrec(s1, 'expected `if <test>: raise <Exception>(…)`')
+        f['guard'] = x.sex(s1.test); f['exc'] = s1.body[0].exc.func.id
+        c = x.copy_stmt(s2)
+        if not c or not c.startswith('.ifCopy '):
+            raise Unrec(s2, 'expected `if copy: W = W.copy()`')
+        f['copyFlag'], f['copyMat'] = s2.test.id, s2.body[0].targets[0].id
+        v = s3.value if isinstance(s3, ast.Assign) and len(s3.targets) == 1 else None
+        if not (isinstance(v, ast.Call) and isinstance(v.func, ast.Name) and v.func.id == 'len' and len(v.args) == 1 and not v.keywords):
+            raise Unrec(s3, 'expected `n = len(W)`')
+        f['dim'] = name_of(s3.targets[0], 'len'); f['dimOf'] = name_of(v.args[0], 'len')
+        if not (isinstance(s4, ast.Expr) and np_call(s4.value, 'fill_diagonal', 2) and not s4.value.keywords and const_int(s4.value.args[1]) is not None):
+            raise Unrec(s4, 'expected `np.fill_diagonal(W, 0)`')
+        f['diagMat'] = name_of(s4.value.args[0], 'fill_diagonal'); f['diagVal'] = lint(const_int(s4.value.args[1]))
+        ae = np_call(s5.test, 'array_equal', 2) if isinstance(s5, ast.If) else None
+        if not (ae and not s5.test.keywords and isinstance(ae[1], ast.Attribute) and ae[1].attr == 'T' and len(s5.body) == 2 and len(s5.orelse) == 1):
+            raise Unrec(s5, 'expected `if np.array_equal(W, W.T): … else: …`')
+        f['symA'] = name_of(ae[0], 'array_equal'); f['symB'] = name_of(ae[1].value, 'array_equal')
+        t0 = s5.body[0]
+        ti = np_call(t0.targets[0].slice, 'tril_indices', 1) if (isinstance(t0, ast.Assign) and len(t0.targets) == 1
+                                                                  and isinstance(t0.targets[0], ast.Subscript)) else None
+        if not (ti and not t0.targets[0].slice.keywords and const_int(t0.value) is not None):
+            raise Unrec(t0, 'expected `W[np.tril_indices(n)] = 0`')
+        f['trilMat'] = name_of(t0.targets[0].value, 'tril'); f['trilDim'] = name_of(ti[0], 'tril_indices'); f['trilVal'] = lint(const_int(t0.value))
+        u1, u2 = s5.body[1], s5.orelse[0]
+        for u_ in (u1, u2):
+            if not (isinstance(u_, ast.Assign) and len(u_.targets) == 1 and isinstance(u_.targets[0], ast.Name) and const_nat(u_.value) is not None
+                    and type(u_.value.value) is int):
+                raise Unrec(u_, 'expected `ud = <integer>`')
+        if u1.targets[0].id != u2.targets[0].id:
+            raise Unrec(u2, 'the two branches bind different names')
+        f['udVar'] = u1.targets[0].id; f['udThen'] = '%d' % u1.value.value; f['udElse'] = '%d' % u2.value.value
+        w = np_call(s6.value, 'where', 1) if isinstance(s6, ast.Assign) and len(s6.targets) == 1 else None
+        if not (w and not s6.value.keywords):
+            raise Unrec(s6, 'expected `ind = np.where(W)`')
+        f['indVar'] = name_of(s6.targets[0], 'where'); f['indOf'] = name_of(w[0], 'where')
+        v = s7.value if isinstance(s7, ast.Assign) and len(s7.targets) == 1 else None
+        ok7 = (isinstance(v, ast.Subscript) and isinstance(v.slice, ast.Slice) and v.slice.lower is None and v.slice.upper is None
+               and const_int(v.slice.step) == -1 and np_call(v.value, 'argsort', 1) and not v.value.keywords
+               and isinstance(v.value.args[0], ast.Subscript) and isinstance(v.value.args[0].slice, ast.Name))
+        if not ok7:
+            raise Unrec(s7, 'expected `I = np.argsort(W[ind])[::-1]`')
+        f['ordVar'] = name_of(s7.targets[0], 'argsort'); f['ordMat'] = name_of(v.value.args[0].value, 'argsort'); f['ordInd'] = v.value.args[0].slice.id
+        v = s8.value if isinstance(s8, ast.Assign) and len(s8.targets) == 1 else None
+        ok8 = (isinstance(v, ast.Call) and isinstance(v.func, ast.Name) and v.func.id == 'int' and len(v.args) == 1 and not v.keywords
+               and isinstance(v.args[0], ast.Call) and isinstance(v.args[0].func, ast.Name) and len(v.args[0].args) == 1 and not v.args[0].keywords)
+        if not ok8:
+            raise Unrec(s8, 'expected `en = int(round(<expression>))`')
+        f['enVar'] = name_of(s8.targets[0], 'en'); f['enCallee'] = v.args[0].func.id; f['enArg'] = x.sex(v.args[0].args[0])
+        t = s9.targets[0] if isinstance(s9, ast.Assign) and len(s9.targets) == 1 else None
+        ok9 = (isinstance(t, ast.Subscript) and isinstance(t.slice, ast.Tuple) and len(t.slice.elts) == 2 and sub3(t.slice.elts[0])
+               and sub3(t.slice.elts[1]) and sub3(t.slice.elts[0])[1] == 0 and sub3(t.slice.elts[1])[1] == 1 and const_int(s9.value) is not None)
+        if not ok9:
+            raise Unrec(s9, 'expected `W[(ind[0][I][en:], ind[1][I][en:])] = 0`')
+        f['cutMat'] = name_of(t.value, 'the cut')
+        f['cutInd0'], _, f['cutOrd0'], f['cutEn0'] = sub3(t.slice.elts[0])
+        f['cutInd1'], _, f['cutOrd1'], f['cutEn1'] = sub3(t.slice.elts[1])
+        f['cutVal'] = lint(const_int(s9.value))
+        t = s10.test if isinstance(s10, ast.If) else None
+        b0 = s10.body[0] if isinstance(s10, ast.If) and len(s10.body) == 1 and not s10.orelse else None
+        ok10 = (isinstance(t, ast.Compare) and len(t.ops) == 1 and isinstance(t.ops[0], ast.Eq) and const_nat(t.comparators[0]) is not None
+                and isinstance(b0, ast.Assign) and len(b0.targets) == 1 and isinstance(b0.targets[0], ast.Subscript)
+                and full2(b0.targets[0].slice) and isinstance(b0.value, ast.BinOp) and isinstance(b0.value.op, ast.Add)
+                and isinstance(b0.value.right, ast.Attribute) and b0.value.right.attr == 'T')
+        if not ok10:
+            raise Unrec(s10, 'expected `if ud == 2: W[:, :] = W + W.T`')
+        f['symVar'] = name_of(t.left, 'ud'); f['symLit'] = '%d' % const_nat(t.comparators[0])
+        f['symMat'] = name_of(b0.targets[0].value, 'W'); f['symL'] = name_of(b0.value.left, 'W'); f['symR'] = name_of(b0.value.right.value, 'W')
+        if not (isinstance(s11, ast.Return) and isinstance(s11.value, ast.Name)):
+            raise Unrec(s11, 'expected `return W`')
+        f['ret'] = s11.value.id
+    except Unrec as e:
+        r.bad(e.node if hasattr(e.node, 'lineno') else fn, e.msg)
+    except (AttributeError, IndexError, TypeError, ValueError) as e:
+        r.bad(fn, 'unrecognised statement shape (%s: %s)' % (type(e).__name__, e))
+    return r
+
+
+def lean_tp(r):
+    f = r.fields or {}
+    a, b = r.parts.get('body', (r.line, r.line))
+    out = []
+    for p in r.problems:
+        out.append('-- NOT RECOGNISED: ' + p.replace('\n', ' '))
+    vals = []
+    for k in TP_FIELDS:
+        if k in TP_RAW:
+            vals.append('%s := %s' % (k, f.get(k, TP_RAW[k])))
+        else:
+            vals.append('%s := %s' % (k, q(f.get(k, '?'))))
+    out.append('/-- `%s` (%s:%d) -/' % (r.name, os.path.basename(r.file), r.line))
+    out.append('def ir_threshold_proportional : TpIR :=\n  { recognised := %s, origins := %s,\n    params := %s, defaults := %s,\n    %s }\n' % (
+        'true' if not r.problems else 'false', lean_origins(r), getattr(r, 'params', '[]'), getattr(r, 'defaults', '[]'), ',\n    '.join(vals)))
+    out.append('theorem threshold_proportional_ok : tpOk ir_threshold_proportional = true := by\n  first | decide | fail "threshold_proportional_ok: '
+               'the statements extracted from threshold_proportional (%s:%d-%d) %s"\n' % (
+                   os.path.basename(r.file), a, b, 'were not all recognised by translate/cores.py' if r.problems else 'are not the expected program'))
+    out.append('theorem threshold_proportional_computes {n : Nat} (o : Oracles) (W : AMat Rat n) (p : Rat) (c : Bool) (order : List Nat) :\n'
+               '    runTp o [ir_teachers_round] ir_threshold_proportional W p c order =\n'
+               '      match Bct.Thresh.thresholdProportional W p order with\n      | .ok R => .ok R\n      | .error e => .error e.str :=\n'
+               '  link_threshold_proportional o _ threshold_proportional_ok [ir_teachers_round] ir_teachers_round teachers_round_ok rfl rfl W p c order\n')
+    return out
 
 
 def family_util():
@@ -1185,10 +1852,30 @@ def family_util():
                 except Exception as e:  # noqa — an extractor crash must not look like success
                     r = Routine(name, paths[kind]); r.problems.append('%s: extractor raised %s: %s' % (name, type(e).__name__, e))
             rs.append(r)
-    return {'module': 'BctVerif.Gen.CoresUtil', 'file': 'CoresUtil.lean', 'text': lean_util(rs, [paths['other'], paths['misc']]),
+    prim = fingerprint_primitive(paths['misc'], 'get_rng')
+    f_, err_ = fns['other']
+    if 'weight_conversion' not in f_:
+        disp = Routine('weight_conversion', paths['other']); disp.problems.append('weight_conversion: %s' % (err_ or 'function not found in ' + paths['other']))
+    else:
+        try:
+            disp = extract_dispatch(f_['weight_conversion'], paths['other'])
+            check_header(disp, f_['weight_conversion'], f_)
+        except Exception as e:  # noqa
+            disp = Routine('weight_conversion', paths['other']); disp.problems.append('weight_conversion: extractor raised %s: %s' % (type(e).__name__, e))
+    if 'threshold_proportional' not in f_:
+        tpr = Routine('threshold_proportional', paths['other']); tpr.problems.append('threshold_proportional: %s' % (err_ or 'function not found'))
+    else:
+        try:
+            tpr = extract_tp(f_['threshold_proportional'], paths['other'])
+            check_header(tpr, f_['threshold_proportional'], f_)
+        except Exception as e:  # noqa
+            tpr = Routine('threshold_proportional', paths['other']); tpr.problems.append('threshold_proportional: extractor raised %s: %s' % (type(e).__name__, e))
+    rs_all = rs + [disp, tpr]
+    return {'module': 'BctVerif.Gen.CoresUtil', 'file': 'CoresUtil.lean', 'text': lean_util(rs, [paths['other'], paths['misc']], prim, disp, tpr),
             'sources': [paths['other'], paths['misc']],
-            'routines': {r.name: dict(getattr(r, 'counts', {}), line=r.line, recognised=not r.problems) for r in rs},
-            'problems': [p for r in rs for p in r.problems]}
+            'routines': dict({r.name: dict(getattr(r, 'counts', {}), line=r.line, recognised=not r.problems) for r in rs_all},
+                             **{'get_rng (called by pick_four_unique_nodes_quickly)': dict(line=prim.line, file=rel(prim.file), recognised=not prim.problems)}),
+            'problems': [p for r in rs_all + [prim] for p in r.problems]}
 
 
 # ====================================================================== family 'comp'
@@ -1386,9 +2073,10 @@ def extract_comp(fn, path):
     return r
 
 
-def lean_comp(r, path):
-    rel = os.path.basename(path)
+def lean_comp(r, path, prim):
+    relb = os.path.basename(path)
     out = ['import BctVerif.Props.CoresComp',
+           'import BctVerif.Props.CoresUtil',
            '/-!',
            '# GENERATED by translate/cores.py (family comp) — do not edit.  Re-emitted from the current source on every check run.',
            'source: %s' % path,
@@ -1408,14 +2096,15 @@ def lean_comp(r, path):
         else:
             v = COMP_INT.get(k, q('?'))
         vals.append('%s := %s' % (k, v))
-    out.append('/-- `get_components` (%s:%d) -/' % (rel, r.line))
+    out += lean_folded_primitive(prim, 'get_components')
+    out.append('/-- `get_components` (%s:%d) -/' % (relb, r.line))
     out.append('def ir_get_components : CompIR :=\n  { recognised := %s,\n    %s }\n' % (
-        'true' if not r.problems else 'false', ',\n    '.join(vals)))
+        'true' if not r.problems else 'false', ',\n    '.join(['origins := ' + lean_origins(r)] + vals)))
     a, b = r.parts.get('body', (r.line, r.line))
     out.append('theorem get_components_loop_ok : (ir_get_components.body == refBody) = true := by\n  first | decide | fail "get_components_loop_ok: '
-               'the merge loop of get_components (%s:%d-%d) is not the expected statement list"\n' % (rel, a, b))
+               'the merge loop of get_components (%s:%d-%d) is not the expected statement list"\n' % (relb, a, b))
     out.append('theorem get_components_ok : compOk ir_get_components = true := by\n  first | decide | fail "get_components_ok: the statements extracted '
-               'from get_components (%s:%d) %s"\n' % (rel, r.line, 'were not all recognised by translate/cores.py' if r.problems
+               'from get_components (%s:%d) %s"\n' % (relb, r.line, 'were not all recognised by translate/cores.py' if r.problems
                                                       else 'are not the expected program'))
     out.append('theorem get_components_computes {n : Nat} (A : AMat Int n) :\n'
                '    run ir_get_components A = if isSymm A then .ok (labels (unionSets A), (unionSets A).map NSet.size) else .error "BCTParamError" :=\n'
@@ -1438,9 +2127,11 @@ def family_comp():
             check_header(r, fns[name], fns)
         except Exception as e:  # noqa — an extractor crash must not look like success
             r = Routine(name, path); r.problems.append('%s: extractor raised %s: %s' % (name, type(e).__name__, e))
-    return {'module': 'BctVerif.Gen.CoresComp', 'file': 'CoresComp.lean', 'text': lean_comp(r, path), 'sources': [path],
-            'routines': {r.name: dict(getattr(r, 'counts', {}), line=r.line, recognised=not r.problems)},
-            'problems': list(r.problems)}
+    prim = fold_util_primitive(path, 'binarize')
+    return {'module': 'BctVerif.Gen.CoresComp', 'file': 'CoresComp.lean', 'text': lean_comp(r, path, prim), 'sources': [path],
+            'routines': {r.name: dict(getattr(r, 'counts', {}), line=r.line, recognised=not r.problems),
+                         'binarize (called by get_components)': dict(line=prim.line, file=rel(prim.file), recognised=not prim.problems)},
+            'problems': list(r.problems) + list(prim.problems)}
 
 
 # ====================================================================== family 'dijk'
@@ -1557,7 +2248,136 @@ def extract_dijk(fn, path):
     return r
 
 
-def lean_dijk(r, path):
+def full_slice(x):
+    return isinstance(x, ast.Slice) and x.lower is None and x.upper is None and x.step is None
+
+
+def extract_dijk_whole(fn, path):
+    """every statement of distance_wei (Model/CoreIRDijk.lean: PStmt, RStmt, WStmt, DijkIR)"""
+    r = Routine('distance_wei', path)
+    r.line = fn.lineno
+    a = fn.args
+    if len(a.args) != 1 or a.vararg or a.kwarg or a.kwonlyargs or a.defaults:
+        r.bad(fn, 'expected exactly one parameter without default')
+    f = {'param': q(a.args[0].arg if a.args else '?'), 'pre': '[]', 'rowVar': q('?'), 'rowBound': q('?'), 'rowPre': '[]', 'whileBody': '[]',
+         'ret': '[]'}
+    r.fields = f
+    body = body_wo_doc(fn)
+    loops = [i for i, st in enumerate(body) if isinstance(st, ast.For)]
+    if len(loops) != 1 or loops[0] != len(body) - 2 or not isinstance(body[-1], ast.Return):
+        r.bad(fn, 'expected statements, one `for` loop, `return`')
+        return r
+
+    def names2(node):
+        return (isinstance(node, ast.Tuple) and len(node.elts) == 2 and all(isinstance(e, ast.Name) for e in node.elts))
+
+    def pstmt(st):
+        if isinstance(st, ast.Assign) and len(st.targets) == 1:
+            t, v = st.targets[0], st.value
+            if isinstance(t, ast.Name):
+                if (isinstance(v, ast.Call) and isinstance(v.func, ast.Name) and v.func.id == 'len' and len(v.args) == 1 and not v.keywords
+                        and isinstance(v.args[0], ast.Name)):
+                    return '.len %s %s' % (q(t.id), q(v.args[0].id))
+                z = np_call(v, 'zeros', 1)
+                if z and not v.keywords and names2(z[0]):
+                    return '.zerosMat %s %s %s' % (q(t.id), q(z[0].elts[0].id), q(z[0].elts[1].id))
+            # M[np.logical_not(np.eye(n))] = np.inf
+            if isinstance(t, ast.Subscript) and isinstance(t.value, ast.Name) and is_np(v, 'inf'):
+                ln = np_call(t.slice, 'logical_not', 1)
+                if ln and not t.slice.keywords:
+                    ey = np_call(ln[0], 'eye', 1)
+                    if ey and not ln[0].keywords and isinstance(ey[0], ast.Name):
+                        return '.setOffDiagInf %s %s' % (q(t.value.id), q(ey[0].id))
+        raise Unrec(st, 'unrecognised statement %s' % src_of(st))
+
+    def rstmt(st):
+        if isinstance(st, ast.Assign) and len(st.targets) == 1 and isinstance(st.targets[0], ast.Name):
+            t, v = st.targets[0].id, st.value
+            o = np_call(v, 'ones', 1)
+            if (o and len(v.keywords) == 1 and isinstance(kw(v, 'dtype'), ast.Name) and kw(v, 'dtype').id == 'bool'
+                    and isinstance(o[0], ast.Tuple) and len(o[0].elts) == 1 and isinstance(o[0].elts[0], ast.Name)):
+                return '.onesVec %s %s' % (q(t), q(o[0].elts[0].id))
+            if (isinstance(v, ast.Call) and isinstance(v.func, ast.Attribute) and v.func.attr == 'copy' and not v.args and not v.keywords
+                    and isinstance(v.func.value, ast.Name)):
+                return '.copyMat %s %s' % (q(t), q(v.func.value.id))
+            if isinstance(v, ast.List) and len(v.elts) == 1 and isinstance(v.elts[0], ast.Name):
+                return '.listOf %s %s' % (q(t), q(v.elts[0].id))
+        raise Unrec(st, 'unrecognised statement %s' % src_of(st))
+
+    def masked(node):
+        """M[r, s] with three names"""
+        if (isinstance(node, ast.Subscript) and isinstance(node.value, ast.Name) and names2(node.slice)):
+            return node.value.id, node.slice.elts[0].id, node.slice.elts[1].id
+        return None
+
+    def wstmt(st, row_var):
+        if isinstance(st, ast.Assign) and len(st.targets) == 1:
+            t, v = st.targets[0], st.value
+            if isinstance(t, ast.Subscript) and isinstance(t.value, ast.Name) and const_nat(v) == 0 and type(v.value) is int:
+                if isinstance(t.slice, ast.Name):
+                    return '.clearVec %s %s' % (q(t.value.id), q(t.slice.id))
+                if (isinstance(t.slice, ast.Tuple) and len(t.slice.elts) == 2 and full_slice(t.slice.elts[0])
+                        and isinstance(t.slice.elts[1], ast.Name)):
+                    return '.zeroCols %s %s' % (q(t.value.id), q(t.slice.elts[1].id))
+            if isinstance(t, ast.Name):
+                m = np_call(v, 'min', 1)
+                if m and not v.keywords and masked(m[0]):
+                    return '.minMasked %s %s %s %s' % ((q(t.id),) + tuple(map(q, masked(m[0]))))
+            # x, = np.where(M[r, :] == y)
+            if isinstance(t, ast.Tuple) and len(t.elts) == 1 and isinstance(t.elts[0], ast.Name) and np_call(v, 'where', 1) and not v.keywords:
+                c = v.args[0]
+                if (isinstance(c, ast.Compare) and len(c.ops) == 1 and isinstance(c.ops[0], ast.Eq) and isinstance(c.comparators[0], ast.Name)
+                        and isinstance(c.left, ast.Subscript) and isinstance(c.left.value, ast.Name) and isinstance(c.left.slice, ast.Tuple)
+                        and len(c.left.slice.elts) == 2 and isinstance(c.left.slice.elts[0], ast.Name) and full_slice(c.left.slice.elts[1])):
+                    return '.whereEqRow %s %s %s %s' % (q(t.elts[0].id), q(c.left.value.id), q(c.left.slice.elts[0].id), q(c.comparators[0].id))
+        if isinstance(st, ast.For) and isinstance(st.target, ast.Name) and isinstance(st.iter, ast.Name) and not st.orelse:
+            x = DijkX([row_var, st.target.id])
+            out = []
+            for b in st.body:
+                out.append(x.stmt(b))
+            return '.forNodes %s %s %s' % (q(st.target.id), q(st.iter.id), '[' + ',\n        '.join(out) + ']')
+        if isinstance(st, ast.If) and not st.orelse and len(st.body) == 1 and isinstance(st.body[0], ast.Break):
+            t = st.test
+            # if M[r, s].size == 0: break
+            if (isinstance(t, ast.Compare) and len(t.ops) == 1 and isinstance(t.ops[0], ast.Eq) and const_nat(t.comparators[0]) == 0
+                    and isinstance(t.left, ast.Attribute) and t.left.attr == 'size' and masked(t.left.value)):
+                return '.breakIfNoneLeft %s %s %s' % tuple(map(q, masked(t.left.value)))
+            i = np_call(t, 'isinf', 1)
+            if i and not t.keywords and isinstance(i[0], ast.Name):
+                return '.breakIfInf %s' % q(i[0].id)
+        raise Unrec(st, 'unrecognised statement %s' % src_of(st))
+
+    def block(sts, fun, sep=',\n      '):
+        out = []
+        for st in sts:
+            try:
+                out.append(fun(st))
+            except Unrec as e:
+                r.bad(e.node if hasattr(e.node, 'lineno') else st, e.msg)
+        return '[' + sep.join(out) + ']'
+    f['pre'] = block(body[:loops[0]], pstmt)
+    o = body[loops[0]]
+    rv = '?'
+    try:
+        rv, b = range_of(ast.comprehension(target=o.target, iter=o.iter, ifs=[], is_async=0), 'the row loop')
+        f['rowVar'] = q(rv); f['rowBound'] = q(name_of(b, 'range'))
+    except Unrec as e:
+        r.bad(o, e.msg)
+    if o.orelse or not o.body or not isinstance(o.body[-1], ast.While):
+        r.bad(o, 'expected the row loop to end with `while True:`')
+        return r
+    w = o.body[-1]
+    if not (isinstance(w.test, ast.Constant) and w.test.value is True and not w.orelse):
+        r.bad(w, 'expected `while True:` without else')
+    f['rowPre'] = block(o.body[:-1], rstmt)
+    f['whileBody'] = block(w.body, lambda st: wstmt(st, rv))
+    f['ret'] = lst(map(q, ret_names(r, body[-1])))
+    r.parts = {'body': lines_of(body)}
+    r.counts = {'statements': len(body), 'while_body': len(w.body)}
+    return r
+
+
+def lean_dijk(r, path, rw):
     rel = os.path.basename(path)
     f = r.fields or {'rowVar': '?', 'rowBound': '?', 'nodeVar': '?', 'nodeList': '?', 'body': '[]'}
     a, b = r.parts.get('body', (r.line, r.line))
@@ -1575,17 +2395,35 @@ def lean_dijk(r, path):
         out.append('-- NOT RECOGNISED: ' + p.replace('\n', ' '))
     out.append('/-- the body of `for v in V:` of `distance_wei` (%s:%d-%d) -/' % (rel, a, b))
     out.append('def ir_distance_wei_relax : RelaxIR :=\n  { recognised := %s, rowVar := %s, rowBound := %s, nodeVar := %s, nodeList := %s,\n    body :=\n     %s }\n' % (
-        'true' if not r.problems else 'false', q(f['rowVar']), q(f['rowBound']), q(f['nodeVar']), q(f['nodeList']), f['body']))
+        'true' if not r.problems else 'false', q(f['rowVar']) + ', origins := ' + lean_origins(r), q(f['rowBound']), q(f['nodeVar']),
+        q(f['nodeList']), f['body']))
     out.append('theorem distance_wei_relax_ok : relaxOk ir_distance_wei_relax = true := by\n  first | decide | fail "distance_wei_relax_ok: the relaxation '
                'block of distance_wei (%s:%d-%d) %s"\n' % (rel, a, b, 'was not completely recognised by translate/cores.py' if r.problems
                                                           else 'is not the expected statement list'))
     out.append('theorem distance_wei_relax_computes {n : Nat} (L : AMat Ext n) (st : DSt n) (Dm Bm G1 : AMat V n) (u v : Fin n)\n'
-               '    (hD : ∀ w, Dm.get u w = .ext st.D[w]) (hB : ∀ w, Bm.get u w = .nat st.B[w])\n'
+               '    (hD : ∀ w, Dm.get u w = .ext st.D[w]) (hB : ∀ w, Bm.get u w = embB st.B[w])\n'
                '    (hG : ∀ w, G1.get v w = g1cell L st.S v w) (hL : ∀ w q, L.get v w = .fin q → q ≠ 0) :\n'
                '    ∃ D\' B\', runBlock ir_distance_wei_relax Dm Bm G1 u v = some (D\', B\') ∧\n'
-               '      (∀ w, D\'.get u w = .ext (relaxFrom L st v).D[w]) ∧ (∀ w, B\'.get u w = .nat (relaxFrom L st v).B[w]) ∧\n'
+               '      (∀ w, D\'.get u w = .ext (relaxFrom L st v).D[w]) ∧ (∀ w, B\'.get u w = embB (relaxFrom L st v).B[w]) ∧\n'
                '      (∀ a w, a ≠ u → D\'.get a w = Dm.get a w ∧ B\'.get a w = Bm.get a w) :=\n'
                '  link_relax _ distance_wei_relax_ok L st Dm Bm G1 u v hD hB hG hL\n')
+    fw = rw.fields or {'param': q('?'), 'pre': '[]', 'rowVar': q('?'), 'rowBound': q('?'), 'rowPre': '[]', 'whileBody': '[]', 'ret': '[]'}
+    for p in rw.problems:
+        out.append('-- NOT RECOGNISED: ' + p.replace('\n', ' '))
+    a2, b2 = rw.parts.get('body', (rw.line, rw.line))
+    out.append('/-- every statement of `distance_wei` (%s:%d) -/' % (rel, rw.line))
+    out.append('def ir_distance_wei : DijkIR :=\n  { recognised := %s, origins := %s,\n    param := %s,\n    pre := %s,\n    rowVar := %s, rowBound := %s,\n'
+               '    rowPre := %s,\n    whileBody :=\n     %s,\n    ret := %s }\n' % (
+                   'true' if not rw.problems else 'false', lean_origins(rw), fw['param'], fw['pre'], fw['rowVar'], fw['rowBound'], fw['rowPre'],
+                   fw['whileBody'], fw['ret']))
+    out.append('theorem distance_wei_while_ok : (ir_distance_wei.whileBody == refWhile) = true := by\n  first | decide | fail "distance_wei_while_ok: '
+               'the `while True:` body of distance_wei (%s:%d-%d: settling, relaxation loop, exit tests, next V) is not the expected statement list"\n' % (
+                   rel, a2, b2))
+    out.append('theorem distance_wei_ok : dijkOk ir_distance_wei = true := by\n  first | decide | fail "distance_wei_ok: the statements extracted from '
+               'distance_wei (%s:%d) %s"\n' % (rel, rw.line, 'were not all recognised by translate/cores.py' if rw.problems else 'are not the expected program'))
+    out.append('theorem distance_wei_computes {n : Nat} (A : AMat Rat n) :\n'
+               '    runDijk ir_distance_wei (n + 1) (embG A) = (dijkstra (lenMat .none A)).map fun r => [r.1.map V.ext, r.2.map embB] :=\n'
+               '  link_distance_wei _ distance_wei_ok A\n')
     out.append('end Bct.Gen.CoresDijk')
     return '\n'.join(out) + '\n'
 
@@ -1600,16 +2438,579 @@ def family_dijk():
         try:
             r = extract_dijk(fns[name], path)
             check_header(r, fns[name], fns)
+            rw = extract_dijk_whole(fns[name], path)
+            check_header(rw, fns[name], fns)
         except Exception as e:  # noqa — an extractor crash must not look like success
             r = Routine(name, path); r.problems.append('%s: extractor raised %s: %s' % (name, type(e).__name__, e))
-    return {'module': 'BctVerif.Gen.CoresDijk', 'file': 'CoresDijk.lean', 'text': lean_dijk(r, path), 'sources': [path],
-            'routines': {'distance_wei (relaxation block)': dict(getattr(r, 'counts', {}), line=r.line, recognised=not r.problems)},
+    if 'rw' not in locals():
+        rw = Routine(name, path); rw.problems = list(r.problems)
+    return {'module': 'BctVerif.Gen.CoresDijk', 'file': 'CoresDijk.lean', 'text': lean_dijk(r, path, rw), 'sources': [path],
+            'routines': {'distance_wei (relaxation block)': dict(getattr(r, 'counts', {}), line=r.line, recognised=not r.problems),
+                         'distance_wei': dict(getattr(rw, 'counts', {}), line=rw.line, recognised=not rw.problems)},
+            'problems': list(r.problems) + [p for p in rw.problems if p not in r.problems]}
+
+
+# ====================================================================== family 'path'
+
+def path_nex(node):
+    """Model/CoreIRPath.lean: NEx"""
+    if isinstance(node, ast.Constant) and type(node.value) is int and node.value >= 0:
+        return '(.lit %d)' % node.value
+    if isinstance(node, ast.Name):
+        return '(.var %s)' % q(node.id)
+    if (isinstance(node, ast.Subscript) and isinstance(node.value, ast.Name) and isinstance(node.slice, ast.Tuple)
+            and len(node.slice.elts) == 2 and all(isinstance(e, ast.Name) for e in node.slice.elts)):
+        return '(.cell %s %s %s)' % (q(node.value.id), q(node.slice.elts[0].id), q(node.slice.elts[1].id))
+    if isinstance(node, ast.BinOp) and isinstance(node.op, ast.Add):
+        return '(.add %s %s)' % (path_nex(node.left), path_nex(node.right))
+    if isinstance(node, ast.Call) and isinstance(node.func, ast.Name) and len(node.args) == 1 and not node.keywords:
+        if node.func.id == 'len' and isinstance(node.args[0], ast.Name):
+            return '(.len %s)' % q(node.args[0].id)
+        if node.func.id == 'int':
+            return '(.toInt %s)' % path_nex(node.args[0])
+    raise Unrec(node, 'unrecognised scalar expression %s' % src_of(node))
+
+
+def path_stmt(st):
+    if isinstance(st, ast.Assign) and len(st.targets) == 1:
+        t, v = st.targets[0], st.value
+        if isinstance(t, ast.Name):
+            if isinstance(v, ast.List) and not v.elts:
+                return '.emptyList %s' % q(t.id)
+            z = np_call(v, 'zeros', 1)
+            if (z and len(v.keywords) == 1 and isinstance(kw(v, 'dtype'), ast.Constant) and kw(v, 'dtype').value == 'int'
+                    and isinstance(z[0], ast.Tuple) and len(z[0].elts) == 2 and const_nat(z[0].elts[1]) == 1):
+                return '.zerosCol %s %s' % (q(t.id), path_nex(z[0].elts[0]))
+            return '.bind %s %s' % (q(t.id), path_nex(v))
+        if isinstance(t, ast.Subscript) and isinstance(t.value, ast.Name) and isinstance(t.slice, (ast.Name, ast.Constant)):
+            return '.setAt %s %s %s' % (q(t.value.id), path_nex(t.slice), path_nex(v))
+    raise Unrec(st, 'unrecognised statement %s' % src_of(st))
+
+
+def extract_path(fn, path):
+    r = Routine(fn.name, path)
+    r.line = fn.lineno
+    a = fn.args
+    if a.vararg or a.kwarg or a.kwonlyargs or a.defaults or getattr(a, 'posonlyargs', []):
+        r.bad(fn, 'expected plain positional parameters without defaults')
+    f = {'params': lst(q(x.arg) for x in a.args), 'pre': '[]', 'testVar': q('?'), 'testLit': '0', 'thenPre': '[]', 'loopVar': q('?'),
+         'lo': '(.lit 0)', 'hi': '(.lit 0)', 'loopBody': '[]', 'elseBody': '[]', 'ret': q('?')}
+    r.fields = f
+    body = body_wo_doc(fn)
+    ifs = [i for i, st in enumerate(body) if isinstance(st, ast.If)]
+    if len(ifs) != 1 or ifs[0] != len(body) - 2 or not isinstance(body[-1], ast.Return) or not isinstance(body[-1].value, ast.Name):
+        r.bad(fn, 'expected statements, one `if … else …`, `return <name>`')
+        return r
+
+    def block(sts):
+        out = []
+        for st in sts:
+            try:
+                out.append(path_stmt(st))
+            except Unrec as e:
+                r.bad(e.node if hasattr(e.node, 'lineno') else st, e.msg)
+        return lst(out)
+    f['pre'] = block(body[:ifs[0]])
+    nd = body[ifs[0]]
+    t = nd.test
+    if (isinstance(t, ast.Compare) and len(t.ops) == 1 and isinstance(t.ops[0], ast.NotEq) and isinstance(t.left, ast.Name)
+            and const_nat(t.comparators[0]) is not None and type(t.comparators[0].value) is int):
+        f['testVar'] = q(t.left.id); f['testLit'] = '%d' % const_nat(t.comparators[0])
+    else:
+        r.bad(nd, 'unrecognised test %s' % src_of(t))
+    if not nd.body or not isinstance(nd.body[-1], ast.For):
+        r.bad(nd, 'expected the `if` branch to end with the `for` loop')
+        return r
+    f['thenPre'] = block(nd.body[:-1])
+    lp = nd.body[-1]
+    it = lp.iter
+    if (isinstance(lp.target, ast.Name) and isinstance(it, ast.Call) and isinstance(it.func, ast.Name) and it.func.id == 'range'
+            and len(it.args) == 2 and not it.keywords and not lp.orelse):
+        f['loopVar'] = q(lp.target.id)
+        try:
+            f['lo'] = path_nex(it.args[0]); f['hi'] = path_nex(it.args[1])
+        except Unrec as e:
+            r.bad(lp, e.msg)
+    else:
+        r.bad(lp, 'unrecognised loop header %s' % src_of(lp))
+    f['loopBody'] = block(lp.body)
+    f['elseBody'] = block(nd.orelse)
+    f['ret'] = q(body[-1].value.id)
+    r.parts = {'body': lines_of(body)}
+    r.counts = {'statements': len(body)}
+    return r
+
+
+def lean_path(r, path):
+    relb = os.path.basename(path)
+    f = r.fields or {'params': '[]', 'pre': '[]', 'testVar': q('?'), 'testLit': '0', 'thenPre': '[]', 'loopVar': q('?'), 'lo': '(.lit 0)',
+                     'hi': '(.lit 0)', 'loopBody': '[]', 'elseBody': '[]', 'ret': q('?')}
+    a, b = r.parts.get('body', (r.line, r.line))
+    out = ['import BctVerif.Props.CoresPath',
+           '/-!',
+           '# GENERATED by translate/cores.py (family path) — do not edit.  Re-emitted from the current source on every check run.',
+           'source: %s' % path,
+           '-/',
+           'set_option linter.unusedTactic false',
+           'set_option linter.unreachableTactic false',
+           'namespace Bct.Gen.CoresPath',
+           'open Bct Bct.Dist Bct.CoreIR.Path Bct.Cores.Path',
+           '']
+    for p in r.problems:
+        out.append('-- NOT RECOGNISED: ' + p.replace('\n', ' '))
+    out.append('/-- `retrieve_shortest_path` (%s:%d) -/' % (relb, r.line))
+    out.append('def ir_retrieve_shortest_path : PathIR :=\n  { recognised := %s, origins := %s,\n    params := %s,\n    pre := %s,\n'
+               '    testVar := %s, testLit := %s,\n    thenPre := %s,\n    loopVar := %s, lo := %s, hi := %s,\n    loopBody := %s,\n'
+               '    elseBody := %s,\n    ret := %s }\n' % ('true' if not r.problems else 'false', lean_origins(r), f['params'], f['pre'], f['testVar'],
+                                                         f['testLit'], f['thenPre'], f['loopVar'], f['lo'], f['hi'], f['loopBody'], f['elseBody'], f['ret']))
+    out.append('theorem retrieve_shortest_path_ok : pathOk ir_retrieve_shortest_path = true := by\n  first | decide | fail "retrieve_shortest_path_ok: '
+               'the statements extracted from retrieve_shortest_path (%s:%d-%d) %s"\n' % (
+                   relb, a, b, 'were not all recognised by translate/cores.py' if r.problems else 'are not the expected program'))
+    out.append('theorem retrieve_shortest_path_computes {n : Nat} (hops : AMat Nat n) (P : AMat (Fin n) n) (s t : Fin n) :\n'
+               '    run ir_retrieve_shortest_path hops P s t = some ((retrieve hops P s t).map Fin.val) :=\n'
+               '  link_retrieve _ retrieve_shortest_path_ok hops P s t\n')
+    out.append('end Bct.Gen.CoresPath')
+    return '\n'.join(out) + '\n'
+
+
+def family_path():
+    path = os.path.join(common.REPO, 'bct', 'algorithms', 'distance.py')
+    fns, err = parse_functions(path)
+    name = 'retrieve_shortest_path'
+    if name not in fns:
+        r = Routine(name, path); r.problems.append('%s: %s' % (name, err or 'function not found in ' + path))
+    else:
+        try:
+            r = extract_path(fns[name], path)
+            check_header(r, fns[name], fns)
+        except Exception as e:  # noqa — an extractor crash must not look like success
+            r = Routine(name, path); r.problems.append('%s: extractor raised %s: %s' % (name, type(e).__name__, e))
+    return {'module': 'BctVerif.Gen.CoresPath', 'file': 'CoresPath.lean', 'text': lean_path(r, path), 'sources': [path],
+            'routines': {r.name: dict(getattr(r, 'counts', {}), line=r.line, recognised=not r.problems)},
             'problems': list(r.problems)}
+
+
+# ====================================================================== family 'bin'
+
+class BinX:
+    """expression / statement mapping for distance_bin (Model/CoreIRBin.lean: Ex, Stmt)"""
+
+    def __init__(self):
+        self.scalars = set()
+
+    def ex(self, node):
+        if isinstance(node, ast.Constant) and type(node.value) is int and node.value >= 0:
+            return '(.lit %d)' % node.value
+        if is_np(node, 'inf'):
+            return '.infLit'
+        if isinstance(node, ast.Name):
+            return ('(.scal %s)' if node.id in self.scalars else '(.ref %s)') % q(node.id)
+        if isinstance(node, ast.BinOp) and isinstance(node.op, ast.Mult):
+            return '(.mul %s %s)' % (self.ex(node.left), self.ex(node.right))
+        if isinstance(node, ast.Compare) and len(node.ops) == 1 and const_nat(node.comparators[0]) == 0 \
+                and type(node.comparators[0].value) is int:
+            if isinstance(node.ops[0], ast.NotEq):
+                return '(.ne0 %s)' % self.ex(node.left)
+            if isinstance(node.ops[0], ast.Eq):
+                return '(.eq0 %s)' % self.ex(node.left)
+        if isinstance(node, ast.Call):
+            f = node.func
+            if isinstance(f, ast.Attribute) and f.attr == 'copy' and not node.args and not node.keywords:
+                return self.ex(f.value)
+            if (isinstance(f, ast.Attribute) and f.attr == 'astype' and len(node.args) == 1 and not node.keywords
+                    and isinstance(node.args[0], ast.Name) and node.args[0].id == 'float'):
+                return '(.toNum %s)' % self.ex(f.value)
+            if (isinstance(f, ast.Name) and f.id == 'binarize' and len(node.args) == 1 and len(node.keywords) == 1
+                    and isinstance(kw(node, 'copy'), ast.Constant) and kw(node, 'copy').value is True):
+                return '(.binarize %s)' % self.ex(node.args[0])
+            a = np_call(node, 'dot', 2)
+            if a and not node.keywords and all(isinstance(x, ast.Name) for x in a):
+                return '(.dot %s %s)' % (q(a[0].id), q(a[1].id))
+            a = np_call(node, 'eye', 1)
+            if (a and not node.keywords and isinstance(a[0], ast.Call) and isinstance(a[0].func, ast.Name) and a[0].func.id == 'len'
+                    and len(a[0].args) == 1 and isinstance(a[0].args[0], ast.Name) and not a[0].keywords):
+                return '(.eyeLen %s)' % q(a[0].args[0].id)
+        raise Unrec(node, 'unrecognised expression %s' % src_of(node))
+
+    def stmt(self, st):
+        if isinstance(st, ast.Assign) and len(st.targets) == 1:
+            t, v = st.targets[0], st.value
+            if isinstance(t, ast.Name):
+                if isinstance(v, ast.Constant) and type(v.value) is int and v.value >= 0:
+                    self.scalars.add(t.id)
+                    return '.setScal %s %d' % (q(t.id), v.value)
+                e = self.ex(v)
+                self.scalars.discard(t.id)
+                return '.bind %s %s' % (q(t.id), e)
+            if isinstance(t, ast.Subscript) and isinstance(t.value, ast.Name) and isinstance(t.slice, ast.Compare):
+                return '.setMask %s %s %s' % (q(t.value.id), self.ex(t.slice), self.ex(v))
+        if isinstance(st, ast.AugAssign) and isinstance(st.op, ast.Add) and isinstance(st.target, ast.Name):
+            if st.target.id in self.scalars:
+                if isinstance(st.value, ast.Constant) and type(st.value.value) is int and st.value.value >= 0:
+                    return '.incr %s %d' % (q(st.target.id), st.value.value)
+            else:
+                return '.augAdd %s %s' % (q(st.target.id), self.ex(st.value))
+        if (isinstance(st, ast.Expr) and np_call(st.value, 'fill_diagonal', 2) and not st.value.keywords
+                and isinstance(st.value.args[0], ast.Name) and const_nat(st.value.args[1]) is not None
+                and type(st.value.args[1].value) is int):
+            return '.fillDiag %s %d' % (q(st.value.args[0].id), st.value.args[1].value)
+        raise Unrec(st, 'unrecognised statement %s' % src_of(st))
+
+
+def extract_bin(fn, path):
+    r = Routine(fn.name, path)
+    r.line = fn.lineno
+    a = fn.args
+    if len(a.args) != 1 or a.vararg or a.kwarg or a.kwonlyargs or a.defaults:
+        r.bad(fn, 'expected exactly one parameter without default')
+    f = {'param': q(a.args[0].arg if a.args else '?'), 'pre': '[]', 'cond': q('?'), 'body': '[]', 'post': '[]', 'ret': q('?')}
+    r.fields = f
+    body = body_wo_doc(fn)
+    loops = [i for i, st in enumerate(body) if isinstance(st, ast.While)]
+    if len(loops) != 1 or not isinstance(body[-1], ast.Return) or not isinstance(body[-1].value, ast.Name):
+        r.bad(fn, 'expected statements, one `while` loop, statements, `return <name>`')
+        return r
+    x = BinX()
+
+    def block(sts):
+        out = []
+        for st in sts:
+            try:
+                out.append(x.stmt(st))
+            except Unrec as e:
+                r.bad(e.node if hasattr(e.node, 'lineno') else st, e.msg)
+        return '[' + ',\n      '.join(out) + ']'
+    li = loops[0]
+    f['pre'] = block(body[:li])
+    w = body[li]
+    c = np_call(w.test, 'any', 1)
+    if c and not w.test.keywords and isinstance(c[0], ast.Name) and not w.orelse:
+        f['cond'] = q(c[0].id)
+    else:
+        r.bad(w, 'unrecognised loop test %s' % src_of(w.test))
+    f['body'] = block(w.body)
+    f['post'] = block(body[li + 1:-1])
+    f['ret'] = q(body[-1].value.id)
+    r.parts = {'body': lines_of(body)}
+    r.counts = {'pre': li, 'body': len(w.body), 'post': len(body) - li - 2}
+    return r
+
+
+def lean_bin(r, path, prim):
+    relb = os.path.basename(path)
+    f = r.fields or {'param': q('?'), 'pre': '[]', 'cond': q('?'), 'body': '[]', 'post': '[]', 'ret': q('?')}
+    a, b = r.parts.get('body', (r.line, r.line))
+    out = ['import BctVerif.Props.CoresBin',
+           'import BctVerif.Props.CoresUtil',
+           '/-!',
+           '# GENERATED by translate/cores.py (family bin) — do not edit.  Re-emitted from the current source on every check run.',
+           'source: %s' % path,
+           '-/',
+           'set_option linter.unusedTactic false',
+           'set_option linter.unreachableTactic false',
+           'namespace Bct.Gen.CoresBin',
+           'open Bct Bct.Dist Bct.CoreIR.Bin Bct.Cores.Bin',
+           '']
+    out += lean_folded_primitive(prim, 'distance_bin')
+    for p in r.problems:
+        out.append('-- NOT RECOGNISED: ' + p.replace('\n', ' '))
+    out.append('/-- `distance_bin` (%s:%d) -/' % (relb, r.line))
+    out.append('def ir_distance_bin : BinIR :=\n  { recognised := %s, origins := %s,\n    param := %s,\n    pre := %s,\n    cond := %s,\n'
+               '    body := %s,\n    post := %s,\n    ret := %s }\n' % ('true' if not r.problems else 'false', lean_origins(r), f['param'], f['pre'],
+                                                                     f['cond'], f['body'], f['post'], f['ret']))
+    out.append('theorem distance_bin_ok : binOk ir_distance_bin = true := by\n  first | decide | fail "distance_bin_ok: the statements extracted from '
+               'distance_bin (%s:%d-%d) %s"\n' % (relb, a, b, 'were not all recognised by translate/cores.py' if r.problems
+                                                  else 'are not the expected program'))
+    out.append('theorem distance_bin_computes {n : Nat} (A : AMat Rat n) :\n'
+               '    (run ir_distance_bin (n * n + 2) (embA A)).map (fun M => M.map V.toExt?) = (distBin A).map fun D => D.map some :=\n'
+               '  link_distance_bin _ distance_bin_ok A\n')
+    out.append('end Bct.Gen.CoresBin')
+    return '\n'.join(out) + '\n'
+
+
+def family_bin():
+    path = os.path.join(common.REPO, 'bct', 'algorithms', 'distance.py')
+    fns, err = parse_functions(path)
+    name = 'distance_bin'
+    if name not in fns:
+        r = Routine(name, path); r.problems.append('%s: %s' % (name, err or 'function not found in ' + path))
+    else:
+        try:
+            r = extract_bin(fns[name], path)
+            check_header(r, fns[name], fns)
+        except Exception as e:  # noqa — an extractor crash must not look like success
+            r = Routine(name, path); r.problems.append('%s: extractor raised %s: %s' % (name, type(e).__name__, e))
+    prim = fold_util_primitive(path, 'binarize')
+    return {'module': 'BctVerif.Gen.CoresBin', 'file': 'CoresBin.lean', 'text': lean_bin(r, path, prim), 'sources': [path],
+            'routines': {r.name: dict(getattr(r, 'counts', {}), line=r.line, recognised=not r.problems),
+                         'binarize (called by distance_bin)': dict(line=prim.line, file=rel(prim.file), recognised=not prim.problems)},
+            'problems': list(r.problems) + list(prim.problems)}
+
+
+# ====================================================================== family 'bfs'
+
+class BfsX:
+    """expression / statement mapping for breadth (Model/CoreIRBfs.lean: SEx, AStmt, FStmt, PStmt, WStmt)"""
+
+    def __init__(self):
+        self.consts = set()
+
+    def sex(self, node):
+        z = const_int(node)
+        if z is not None:
+            return '(.lit %s)' % lint(z)
+        if is_np(node, 'inf'):
+            return '.inf'
+        if isinstance(node, ast.Name):
+            return ('(.var %s)' if node.id in self.consts else '(.node %s)') % q(node.id)
+        if isinstance(node, ast.Subscript) and isinstance(node.value, ast.Name) and isinstance(node.slice, ast.Name):
+            return '(.vecAt %s %s)' % (q(node.value.id), q(node.slice.id))
+        if isinstance(node, ast.BinOp) and isinstance(node.op, ast.Add):
+            return '(.add %s %s)' % (self.sex(node.left), self.sex(node.right))
+        raise Unrec(node, 'unrecognised scalar expression %s' % src_of(node))
+
+    def set_vec(self, st):
+        if (isinstance(st, ast.Assign) and len(st.targets) == 1 and isinstance(st.targets[0], ast.Subscript)
+                and isinstance(st.targets[0].value, ast.Name) and isinstance(st.targets[0].slice, ast.Name)):
+            return '.setVec %s %s %s' % (q(st.targets[0].value.id), q(st.targets[0].slice.id), self.sex(st.value))
+        return None
+
+    def astmt(self, st):
+        s_ = self.set_vec(st)
+        if s_:
+            return s_
+        if (isinstance(st, ast.Expr) and isinstance(st.value, ast.Call) and isinstance(st.value.func, ast.Attribute)
+                and st.value.func.attr == 'append' and isinstance(st.value.func.value, ast.Name) and len(st.value.args) == 1
+                and isinstance(st.value.args[0], ast.Name) and not st.value.keywords):
+            return '.append %s %s' % (q(st.value.func.value.id), q(st.value.args[0].id))
+        raise Unrec(st, 'unrecognised statement %s' % src_of(st))
+
+    def fstmt(self, st):
+        if (isinstance(st, ast.If) and not st.orelse and isinstance(st.test, ast.Compare) and len(st.test.ops) == 1
+                and isinstance(st.test.ops[0], ast.Eq)):
+            return '.ifEq %s %s %s' % (self.sex(st.test.left), self.sex(st.test.comparators[0]), lst(self.astmt(x) for x in st.body))
+        raise Unrec(st, 'unrecognised statement %s' % src_of(st))
+
+    def pstmt(self, st):
+        s_ = self.set_vec(st)
+        if s_:
+            return s_
+        if isinstance(st, ast.Assign) and len(st.targets) == 1 and isinstance(st.targets[0], ast.Name):
+            t, v = st.targets[0].id, st.value
+            if (isinstance(v, ast.Call) and isinstance(v.func, ast.Name) and v.func.id == 'len' and len(v.args) == 1 and not v.keywords
+                    and isinstance(v.args[0], ast.Name)):
+                return '.len %s %s' % (q(t), q(v.args[0].id))
+            if const_int(v) is not None:
+                self.consts.add(t)
+                return '.const %s %s' % (q(t), lint(const_int(v)))
+
+            def vec_of(call, fn_):
+                a = np_call(call, fn_, 1)
+                if a and not call.keywords and isinstance(a[0], ast.Tuple) and len(a[0].elts) == 1 and isinstance(a[0].elts[0], ast.Name):
+                    return a[0].elts[0].id
+                return None
+            if vec_of(v, 'zeros'):
+                return '.zerosVec %s %s' % (q(t), q(vec_of(v, 'zeros')))
+            if isinstance(v, ast.BinOp) and isinstance(v.op, ast.Mult) and is_np(v.left, 'inf') and vec_of(v.right, 'ones'):
+                return '.infVec %s %s' % (q(t), q(vec_of(v.right, 'ones')))
+            if isinstance(v, ast.List) and len(v.elts) == 1 and isinstance(v.elts[0], ast.Name):
+                return '.listOf %s %s' % (q(t), q(v.elts[0].id))
+        raise Unrec(st, 'unrecognised statement %s' % src_of(st))
+
+    def wstmt(self, st):
+        s_ = self.set_vec(st)
+        if s_:
+            return s_
+        if isinstance(st, ast.Assign) and len(st.targets) == 1:
+            t, v = st.targets[0], st.value
+            if isinstance(t, ast.Name) and isinstance(v, ast.Subscript) and isinstance(v.value, ast.Name):
+                if const_nat(v.slice) == 0:
+                    return '.head %s %s' % (q(t.id), q(v.value.id))
+                sl = v.slice
+                if (isinstance(sl, ast.Slice) and const_nat(sl.lower) == 1 and sl.upper is None and sl.step is None and t.id == v.value.id):
+                    return '.tail %s' % q(t.id)
+            if isinstance(t, ast.Tuple) and len(t.elts) == 1 and isinstance(t.elts[0], ast.Name) and np_call(v, 'where', 1) and not v.keywords:
+                a = v.args[0]
+                if (isinstance(a, ast.Subscript) and isinstance(a.value, ast.Name) and isinstance(a.slice, ast.Tuple) and len(a.slice.elts) == 2
+                        and isinstance(a.slice.elts[0], ast.Name) and full_slice(a.slice.elts[1])):
+                    return '.whereRow %s %s %s' % (q(t.elts[0].id), q(a.value.id), q(a.slice.elts[0].id))
+        if isinstance(st, ast.For) and isinstance(st.target, ast.Name) and isinstance(st.iter, ast.Name) and not st.orelse:
+            return '.forIn %s %s %s' % (q(st.target.id), q(st.iter.id), '[' + ',\n        '.join(self.fstmt(x) for x in st.body) + ']')
+        raise Unrec(st, 'unrecognised statement %s' % src_of(st))
+
+
+def extract_bfs(fn, path):
+    r = Routine(fn.name, path)
+    r.line = fn.lineno
+    a = fn.args
+    if a.vararg or a.kwarg or a.kwonlyargs or a.defaults:
+        r.bad(fn, 'expected plain positional parameters without defaults')
+    f = {'params': lst(q(x.arg) for x in a.args), 'pre': '[]', 'loopList': q('?'), 'body': '[]', 'ret': '[]'}
+    r.fields = f
+    body = body_wo_doc(fn)
+    loops = [i for i, st in enumerate(body) if isinstance(st, ast.While)]
+    if len(loops) != 1 or loops[0] != len(body) - 2 or not isinstance(body[-1], ast.Return):
+        r.bad(fn, 'expected statements, one `while` loop, `return`')
+        return r
+    x = BfsX()
+
+    def block(sts, fun):
+        out = []
+        for st in sts:
+            try:
+                out.append(fun(st))
+            except Unrec as e:
+                r.bad(e.node if hasattr(e.node, 'lineno') else st, e.msg)
+        return '[' + ',\n      '.join(out) + ']'
+    f['pre'] = block(body[:loops[0]], x.pstmt)
+    w = body[loops[0]]
+    if isinstance(w.test, ast.Name) and not w.orelse:
+        f['loopList'] = q(w.test.id)
+    else:
+        r.bad(w, 'unrecognised loop test %s' % src_of(w.test))
+    f['body'] = block(w.body, x.wstmt)
+    f['ret'] = lst(map(q, ret_names(r, body[-1])))
+    r.parts = {'body': lines_of(body)}
+    r.counts = {'pre': loops[0], 'while_body': len(w.body)}
+    return r
+
+
+BDIST_FIELDS = 'param dim dimOf dmat z1 z2 rowVar rowBound rowMat rowIdx callee callArgs mMat mCond mLit rmat rSrc ret'.split()
+
+
+def extract_bdist(fn, path):
+    r = Routine(fn.name, path)
+    r.line = fn.lineno
+    a = fn.args
+    if len(a.args) != 1 or a.vararg or a.kwarg or a.kwonlyargs or a.defaults:
+        r.bad(fn, 'expected exactly one parameter without default')
+        return r
+    f = {'param': a.args[0].arg}
+    r.fields = f
+    body = body_wo_doc(fn)
+    r.parts = {'body': lines_of(body)}
+    if len(body) != 6:
+        r.bad(fn, 'expected exactly 6 statements (len, zeros, row loop, D[D == 0] = inf, R = (D != inf), return), found %d' % len(body))
+        return r
+    try:
+        s0, s1, s2, s3, s4, s5 = body
+        v = s0.value
+        if not (isinstance(s0, ast.Assign) and isinstance(v, ast.Call) and isinstance(v.func, ast.Name) and v.func.id == 'len' and len(v.args) == 1):
+            raise Unrec(s0, 'expected `n = len(CIJ)`')
+        f['dim'] = name_of(s0.targets[0], 'len'); f['dimOf'] = name_of(v.args[0], 'len')
+        z = np_call(s1.value, 'zeros', 1) if isinstance(s1, ast.Assign) else None
+        if not (z and not s1.value.keywords and isinstance(z[0], ast.Tuple) and len(z[0].elts) == 2):
+            raise Unrec(s1, 'expected `D = np.zeros((n, n))`')
+        f['dmat'] = name_of(s1.targets[0], 'zeros'); f['z1'] = name_of(z[0].elts[0], 'zeros'); f['z2'] = name_of(z[0].elts[1], 'zeros')
+        if not (isinstance(s2, ast.For) and not s2.orelse and len(s2.body) == 1):
+            raise Unrec(s2, 'expected the row loop with one statement')
+        f['rowVar'], b = range_of(ast.comprehension(target=s2.target, iter=s2.iter, ifs=[], is_async=0), 'the row loop')
+        f['rowBound'] = name_of(b, 'range')
+        c = s2.body[0]
+        ok = (isinstance(c, ast.Assign) and len(c.targets) == 1 and isinstance(c.targets[0], ast.Tuple) and len(c.targets[0].elts) == 2
+              and isinstance(c.targets[0].elts[1], ast.Name) and isinstance(c.targets[0].elts[0], ast.Subscript)
+              and isinstance(c.targets[0].elts[0].slice, ast.Tuple) and len(c.targets[0].elts[0].slice.elts) == 2
+              and full_slice(c.targets[0].elts[0].slice.elts[1]) and isinstance(c.value, ast.Call) and isinstance(c.value.func, ast.Name)
+              and not c.value.keywords and all(isinstance(x, ast.Name) for x in c.value.args))
+        if not ok:
+            raise Unrec(c, 'expected `D[i, :], _ = breadth(CIJ, i)`')
+        if c.targets[0].elts[1].id in (f['dmat'], f['rowVar'], f['dim'], f['param']):
+            raise Unrec(c, 'the discarded result is bound to a name that is used')
+        f['rowMat'] = name_of(c.targets[0].elts[0].value, 'the row store'); f['rowIdx'] = name_of(c.targets[0].elts[0].slice.elts[0], 'the row store')
+        f['callee'] = c.value.func.id; f['callArgs'] = lst(q(x.id) for x in c.value.args)
+        t = s3.targets[0] if isinstance(s3, ast.Assign) and len(s3.targets) == 1 else None
+        if not (t is not None and isinstance(t, ast.Subscript) and isinstance(t.slice, ast.Compare) and len(t.slice.ops) == 1
+                and isinstance(t.slice.ops[0], ast.Eq) and const_int(t.slice.comparators[0]) is not None and is_np(s3.value, 'inf')):
+            raise Unrec(s3, 'expected `D[D == 0] = np.inf`')
+        f['mMat'] = name_of(t.value, 'the mask store'); f['mCond'] = name_of(t.slice.left, 'the mask'); f['mLit'] = lint(const_int(t.slice.comparators[0]))
+        v = s4.value if isinstance(s4, ast.Assign) and len(s4.targets) == 1 else None
+        if not (v is not None and isinstance(v, ast.Compare) and len(v.ops) == 1 and isinstance(v.ops[0], ast.NotEq) and is_np(v.comparators[0], 'inf')):
+            raise Unrec(s4, 'expected `R = (D != np.inf)`')
+        f['rmat'] = name_of(s4.targets[0], 'R'); f['rSrc'] = name_of(v.left, 'R')
+        f['ret'] = lst(map(q, ret_names(r, s5))) if isinstance(s5, ast.Return) and s5.value is not None else '[]'
+    except Unrec as e:
+        r.bad(e.node if hasattr(e.node, 'lineno') else fn, e.msg)
+    except (AttributeError, IndexError, TypeError) as e:
+        r.bad(fn, 'unrecognised statement shape (%s)' % type(e).__name__)
+    return r
+
+
+def lean_bfs(rb, rd, path):
+    relb = os.path.basename(path)
+    out = ['import BctVerif.Props.CoresBfs',
+           '/-!',
+           '# GENERATED by translate/cores.py (family bfs) — do not edit.  Re-emitted from the current source on every check run.',
+           'source: %s' % path,
+           '-/',
+           'set_option linter.unusedTactic false',
+           'set_option linter.unreachableTactic false',
+           'namespace Bct.Gen.CoresBfs',
+           'open Bct Bct.Dist Bct.CoreIR.Bfs Bct.Cores.Bfs',
+           '']
+    f = rb.fields or {'params': '[]', 'pre': '[]', 'loopList': q('?'), 'body': '[]', 'ret': '[]'}
+    for p in rb.problems:
+        out.append('-- NOT RECOGNISED: ' + p.replace('\n', ' '))
+    a, b = rb.parts.get('body', (rb.line, rb.line))
+    out.append('/-- `breadth` (%s:%d) -/' % (relb, rb.line))
+    out.append('def ir_breadth : BfsIR :=\n  { recognised := %s, origins := %s,\n    params := %s,\n    pre := %s,\n    loopList := %s,\n'
+               '    body := %s,\n    ret := %s }\n' % ('true' if not rb.problems else 'false', lean_origins(rb), f['params'], f['pre'], f['loopList'],
+                                                     f['body'], f['ret']))
+    out.append('theorem breadth_ok : bfsOk ir_breadth = true := by\n  first | decide | fail "breadth_ok: the statements extracted from breadth (%s:%d-%d) %s"\n' % (
+        relb, a, b, 'were not all recognised by translate/cores.py' if rb.problems else 'are not the expected program'))
+    out.append('theorem breadth_computes {n : Nat} (fuel : Nat) (A : AMat Rat n) (src : Fin n) :\n'
+               '    runBfs ir_breadth fuel A src = (bfsLoop A fuel (bInit src) [src]).map fun st => [st.dist, st.branch.map cZ] :=\n'
+               '  link_breadth _ breadth_ok fuel A src\n')
+    out.append('theorem breadth_model {n : Nat} (A : AMat Rat n) (src : Fin n) :\n'
+               '    runBfs ir_breadth (n + 1) A src = (breadth A src).map fun st => [st.dist, st.branch.map cZ] :=\n'
+               '  link_breadth_model _ breadth_ok A src\n')
+    fd = rd.fields
+    for p in rd.problems:
+        out.append('-- NOT RECOGNISED: ' + p.replace('\n', ' '))
+    vals = []
+    for k in BDIST_FIELDS:
+        if k in ('callArgs', 'ret'):
+            vals.append('%s := %s' % (k, fd.get(k, '[]')))
+        elif k == 'mLit':
+            vals.append('%s := %s' % (k, fd.get(k, '0')))
+        else:
+            vals.append('%s := %s' % (k, q(fd.get(k, '?'))))
+    a, b = rd.parts.get('body', (rd.line, rd.line))
+    out.append('/-- `breadthdist` (%s:%d) -/' % (relb, rd.line))
+    out.append('def ir_breadthdist : BdistIR :=\n  { recognised := %s, origins := %s,\n    %s }\n' % (
+        'true' if not rd.problems else 'false', lean_origins(rd), ', '.join(vals)))
+    out.append('theorem breadthdist_ok : bdistOk ir_breadthdist = true := by\n  first | decide | fail "breadthdist_ok: the statements extracted from '
+               'breadthdist (%s:%d-%d) %s"\n' % (relb, a, b, 'were not all recognised by translate/cores.py' if rd.problems
+                                                 else 'are not the expected program'))
+    out.append('/-- the extracted `breadthdist`, calling the extracted `breadth` (the definition its name resolves to) with the model\'s fuel -/\n'
+               'theorem breadthdist_computes {n : Nat} (A : AMat Rat n) :\n'
+               '    runBdist ir_breadthdist (fun i => (runBfs ir_breadth (n + 1) A i).bind fun vs => vs.head?) = breadthdist A := by\n'
+               '  apply link_breadthdist _ breadthdist_ok A\n  intro i\n  rw [breadth_model A i]\n  cases breadth A i <;> rfl\n')
+    out.append('end Bct.Gen.CoresBfs')
+    return '\n'.join(out) + '\n'
+
+
+def family_bfs():
+    path = os.path.join(common.REPO, 'bct', 'algorithms', 'distance.py')
+    fns, err = parse_functions(path)
+    rs = []
+    for name, ex_ in (('breadth', extract_bfs), ('breadthdist', extract_bdist)):
+        if name not in fns:
+            r = Routine(name, path); r.problems.append('%s: %s' % (name, err or 'function not found in ' + path))
+        else:
+            try:
+                r = ex_(fns[name], path)
+                check_header(r, fns[name], fns)
+            except Exception as e:  # noqa — an extractor crash must not look like success
+                r = Routine(name, path); r.problems.append('%s: extractor raised %s: %s' % (name, type(e).__name__, e))
+        rs.append(r)
+    return {'module': 'BctVerif.Gen.CoresBfs', 'file': 'CoresBfs.lean', 'text': lean_bfs(rs[0], rs[1], path), 'sources': [path],
+            'routines': {r.name: dict(getattr(r, 'counts', {}), line=r.line, recognised=not r.problems) for r in rs},
+            'problems': [p for r in rs for p in r.problems]}
 
 
 # ====================================================================== entry points
 
-FAMILIES = {'floyd': family_floyd, 'peel': family_peel, 'util': family_util, 'comp': family_comp, 'dijk': family_dijk}
+FAMILIES = {'floyd': family_floyd, 'peel': family_peel, 'util': family_util, 'comp': family_comp, 'dijk': family_dijk, 'path': family_path, 'bin': family_bin, 'bfs': family_bfs}
 
 
 def write_if_changed(path, text):
@@ -1627,6 +3028,8 @@ def generate(lean_dir=None, families=None):
     families (default: all).  Returns {'families': {fam: {'module', 'file', 'changed', 'sources', 'routines', 'problems'}},
     'modules': [...], 'problems': [...all...]}."""
     lean_dir = lean_dir or common.LEAN
+    _SCOPES.clear()
+    _NP_SCAN.clear()
     out = {'families': {}, 'modules': [], 'problems': []}
     for fam in (families or sorted(FAMILIES)):
         try:
